@@ -1,15 +1,27 @@
-"""C09 translator: rusl syscall wrappers -> decode skeletons.
+"""C09 translator: rusl syscall wrappers -> decode skeletons (semantic extraction).
 
-Scans /repo/rusl/src for every `fn` containing `syscall!(` and extracts what happens between the
-kernel's return value and the function's return into a term of the tiny AST `Skel`
-(lean/TinyVerif/Model/Wrap.lean).  Writes, only when the content changes,
+Scans /repo/rusl/src for every `fn` containing `syscall!(` (and every fn that calls such a fn of the same file) and
+works out what happens between the kernel's return value and the function's return:
 
-  * lean/TinyVerif/Gen/Wrappers.lean   -- `Gen.cfg` (decode idioms + constants) and `Gen.wrappers`
-  * harness/c09/src/gen_calls.rs       -- one call stub per callable wrapper (dummy arguments)
+  * the source is tokenised and split into statements; expressions are parsed (Pratt parser for the Rust subset the
+    wrappers use) only when they matter;
+  * a small symbolic interpreter runs the function body with the return register as a symbol: `let` bindings and
+    constants (`Errno::X.raw()`, `const`s, `usize::MAX`, `0usize.wrapping_sub(..)`) are resolved, `-x` / `0 - x`,
+    inverted branches, early returns, `!=`/`==`, hoisted sub-expressions and cast chains are normalised; the result is a
+    decision tree over the register (conditions: "is in the error range", "equals constant"; leaves: Ok / Err / retry);
+  * the tree is matched against the skeleton forms of lean/TinyVerif/Model/Wrap.lean (`Skel`).
 
-and returns the metadata the check needs.  A construct it does not recognise becomes
-`Skel.custom "<normalised text>"`, which fails `chk` in Lean (a broken obligation), never a skip.
-Python 3 stdlib only; regex + bracket matching on comment-stripped source.
+A body whose tree is not one of the skeleton forms (or that cannot be parsed) is marked OPAQUE: its row is
+`Skel.custom "opaque: .."`, its name is listed in `Gen.opaqueRows`, the Lean table obligation ranges over the other rows, and
+checks/c09.py decides the property for it from what the compiled code does under the scripted kernel, exhaustively
+over the errno range, the success classes and all argument variants (and says so in the evidence).  A body that IS
+understood but decodes differently (other retry constant, other error code expression, other error window) yields a
+well-formed skeleton / Cfg that fails `chk` / `cfgOk` in Lean: a broken obligation, never a skip.
+
+Writes, only when the content changes,
+  * lean/TinyVerif/Gen/Wrappers.lean   -- `Gen.cfg`, `Gen.problems`, `Gen.observed`, `Gen.opaqueRows`, `Gen.wrappers`
+  * harness/c09/src/gen_calls.rs       -- one call stub per exported wrapper, from the SIGNATURES only
+Python 3 stdlib only.
 """
 import glob
 import json
@@ -24,9 +36,12 @@ GEN_LEAN = os.path.join(VERIF, "lean", "TinyVerif", "Gen", "Wrappers.lean")
 GEN_RS = os.path.join(VERIF, "harness", "c09", "src", "gen_calls.rs")
 
 # the build the harness makes: x86_64, default features (alloc), not(test)
-CFG_TRUE = {'target_arch = "x86_64"', 'feature = "alloc"'}
+CFG_TRUE = {'target_arch = "x86_64"', 'feature = "alloc"', 'target_pointer_width = "64"', 'target_os = "linux"'}
 
 PRIM = {"i32": "i32", "u32": "u32", "i64": "i64", "u64": "u64", "usize": "u64", "isize": "i64"}
+M64 = 1 << 64
+INT_TYPES = {"i8": (8, True), "u8": (8, False), "i16": (16, True), "u16": (16, False), "i32": (32, True), "u32": (32, False),
+             "i64": (64, True), "u64": (64, False), "isize": (64, True), "usize": (64, False), "i128": (128, True), "u128": (128, False)}
 
 
 # ------------------------------------------------------------------ lexical helpers
@@ -93,7 +108,7 @@ CLOSE = {v: k for k, v in OPEN.items()}
 
 
 def match_close(s, i):
-    """s[i] is an opening bracket; index of its partner (or -1)"""
+    """s[i] is an opening bracket (string or token list); index of its partner (or -1)"""
     stack = []
     for j in range(i, len(s)):
         c = s[j]
@@ -121,7 +136,7 @@ def ws(s):
 def cfg_holds(expr):
     """evaluate a cfg predicate for the harness build; unknown atoms are false"""
     expr = expr.strip()
-    m = re.fullmatch(r"(all|any|not)\((.*)\)", expr, re.S)
+    m = re.fullmatch(r"(all|any|not)\s*\((.*)\)", expr, re.S)
     if m:
         parts, depth, cur = [], 0, ""
         for ch in m.group(2):
@@ -141,38 +156,1558 @@ def cfg_holds(expr):
     return ws(expr) in CFG_TRUE
 
 
-ATTR_RE = re.compile(r"#\s*!?\[")
-
-
-def drop_attrs_and_cfg(body):
-    """inside a fn body: remove statements gated by a false cfg, then every other attribute"""
-    while True:
-        m = ATTR_RE.search(body)
-        if not m:
-            return body
-        lb = body.index("[", m.start())
-        rb = match_close(body, lb)
-        attr = body[lb + 1:rb]
-        cm = re.fullmatch(r"\s*cfg\((.*)\)\s*", attr, re.S)
-        if cm and not cfg_holds(cm.group(1)):
-            # drop the gated statement: up to the `;` at bracket depth 0
-            j, depth = rb + 1, 0
-            while j < len(body):
-                ch = body[j]
-                if ch in OPEN:
-                    depth += 1
-                elif ch in CLOSE:
-                    depth -= 1
-                elif ch == ";" and depth == 0:
-                    break
-                j += 1
-            body = body[:m.start()] + body[j + 1:]
-        else:
-            body = body[:m.start()] + body[rb + 1:]
-
-
 def lean_str(s):
     return '"' + s.replace("\\", "\\\\").replace('"', '\\"') + '"'
+
+
+# ------------------------------------------------------------------ tokens
+
+TOK_RE = re.compile(r"""
+   (?P<ws>\s+)
+ | (?P<chr>'(?:\\(?:x[0-9a-fA-F]{2}|u\{[0-9a-fA-F]+\}|.)|[^'\\])')
+ | (?P<life>'[A-Za-z_]\w*)
+ | (?P<num>0[xX][0-9a-fA-F_]+\w*|0[bB][01_]+\w*|0[oO][0-7_]+\w*|\d[\d_]*(?:\.\d[\d_]*)?(?:[eE][+-]?\d[\d_]*)?\w*)
+ | (?P<str>(?:b|c)?"(?:[^"\\]|\\.)*")
+ | (?P<id>\$?(?:r\#)?[A-Za-z_]\w*)
+ | (?P<p><<=|>>=|\.\.\.|\.\.=|::|->|=>|==|!=|<=|>=|&&|\|\||\+=|-=|\*=|/=|%=|\^=|&=|\|=|<<|>>|\.\.|[-+*/%^!&|=<>@.,;:\#$?~\[\]{}()])
+""", re.X)
+
+
+class ParseError(Exception):
+    pass
+
+
+def tokenize(src):
+    """comment-stripped source -> list of token strings"""
+    toks = []
+    i, n = 0, len(src)
+    while i < n:
+        if toks and toks[-1] == "." and src[i].isdigit():
+            m = re.compile(r"\d+").match(src, i)  # tuple index: `x.0.1` must not lex `0.1` as a float
+            toks.append(m.group(0))
+            i = m.end()
+            continue
+        m = TOK_RE.match(src, i)
+        if not m:
+            raise ParseError("cannot tokenise at: " + src[i:i + 20])
+        if m.lastgroup != "ws":
+            toks.append(m.group(0))
+        i = m.end()
+    return toks
+
+
+def text_of(toks):
+    out = ""
+    for t in toks:
+        if out and (out[-1].isalnum() or out[-1] in "_\"'") and (t[0].isalnum() or t[0] in "_\"'$"):
+            out += " "
+        elif out and t in ("{", "}", "=", "==", "!=", "<=", ">=", "&&", "||", "=>", "->", "+", "-", "*", "/", "<", ">", "as") or \
+                (out and out[-1] in "{}=,;+*/<>|&" and not out.endswith("::") and t not in (")", "]", ",", ";", ".")):
+            out += " "
+        out += t
+    return out.replace('""', "_")
+
+
+def is_ident(t):
+    return bool(re.fullmatch(r"\$?(?:r#)?[A-Za-z_]\w*", t))
+
+
+def parse_int(tok):
+    """integer literal token -> (value, suffix or None); None for floats / non-integers"""
+    t = tok.replace("_", "")
+    m = re.fullmatch(r"(0[xX][0-9a-fA-F]+|0[bB][01]+|0[oO][0-7]+|\d+)((?:[iu](?:8|16|32|64|128|size))?)", t)
+    if not m:
+        return None
+    lit, suf = m.group(1), m.group(2) or None
+    low = lit.lower()
+    if low.startswith("0x"):
+        v = int(low[2:], 16)
+    elif low.startswith("0b"):
+        v = int(low[2:], 2)
+    elif low.startswith("0o"):
+        v = int(low[2:], 8)
+    else:
+        v = int(lit)
+    return v, suf
+
+
+# ------------------------------------------------------------------ statement splitter
+
+ITEM_KW = {"fn", "struct", "enum", "union", "use", "impl", "trait", "type", "mod", "static", "extern", "macro_rules", "pub"}
+BLOCKLIKE = {"if", "match", "loop", "while", "for", "unsafe", "{"}
+
+
+def find_at_depth0(toks, i, targets, end=None):
+    """first index >= i of a token in `targets` at bracket depth 0 (or -1)"""
+    depth = 0
+    end = len(toks) if end is None else end
+    j = i
+    while j < end:
+        t = toks[j]
+        if depth == 0 and t in targets:
+            return j
+        if t in OPEN:
+            depth += 1
+        elif t in CLOSE:
+            depth -= 1
+            if depth < 0:
+                return -1
+        j += 1
+    return -1
+
+
+def end_of_blocklike(toks, i):
+    """toks[i] starts a block-like expression in statement position; index of its last token"""
+    t = toks[i]
+    if t.startswith("'") and i + 2 < len(toks) and toks[i + 1] == ":":
+        return end_of_blocklike(toks, i + 2)
+    if t == "{":
+        return match_close(toks, i)
+    if t in ("unsafe", "loop", "const"):
+        if toks[i + 1] != "{":
+            raise ParseError("expected block after " + t)
+        return match_close(toks, i + 1)
+    if t in ("match", "while", "for"):
+        ob = find_at_depth0(toks, i + 1, ("{",))
+        if ob < 0:
+            raise ParseError("no body for " + t)
+        return match_close(toks, ob)
+    if t == "if":
+        ob = find_at_depth0(toks, i + 1, ("{",))
+        if ob < 0:
+            raise ParseError("no body for if")
+        e = match_close(toks, ob)
+        if e < 0:
+            raise ParseError("unbalanced if")
+        if e + 1 < len(toks) and toks[e + 1] == "else":
+            if e + 2 < len(toks) and toks[e + 2] == "if":
+                return end_of_blocklike(toks, e + 2)
+            if e + 2 < len(toks) and toks[e + 2] == "{":
+                return match_close(toks, e + 2)
+            raise ParseError("bad else")
+        return e
+    raise ParseError("not block-like: " + t)
+
+
+def starts_blocklike(toks, i):
+    t = toks[i]
+    if t in ("if", "match", "loop", "while", "for", "{"):
+        return True
+    if t == "unsafe" and i + 1 < len(toks) and toks[i + 1] == "{":
+        return True
+    if t.startswith("'") and len(t) > 1 and i + 2 < len(toks) and toks[i + 1] == ":" and toks[i + 2] in ("loop", "while", "for", "{"):
+        return True
+    return False
+
+
+class Stmt:
+    __slots__ = ("kind", "toks", "name", "mut", "rhs", "semi", "pat")
+
+    def __init__(self, kind, toks, name=None, mut=False, rhs=None, semi=True, pat=None):
+        self.kind, self.toks, self.name, self.mut, self.rhs, self.semi, self.pat = kind, toks, name, mut, rhs, semi, pat
+
+
+def split_block(toks):
+    """tokens between the braces of a block -> (list of Stmt, tail tokens or None).
+    Statements gated by a cfg that is false in the harness build are dropped, other attributes ignored."""
+    stmts = []
+    tail = None
+    i, n = 0, len(toks)
+    while i < n:
+        keep = True
+        while i < n and toks[i] == "#":
+            j = i + 1
+            if j < n and toks[j] == "!":
+                j += 1
+            if j >= n or toks[j] != "[":
+                raise ParseError("stray #")
+            e = match_close(toks, j)
+            if e < 0:
+                raise ParseError("unbalanced attribute")
+            attr = toks[j + 1:e]
+            if attr and attr[0] == "cfg" and len(attr) > 2:
+                keep = keep and cfg_holds(text_of_cfg(attr[2:-1]))
+            i = e + 1
+        if i >= n:
+            break
+        t = toks[i]
+        if t == ";":
+            i += 1
+            continue
+        if t == "let":
+            e = find_at_depth0(toks, i, (";",))
+            if e < 0:
+                raise ParseError("let without ;")
+            body = toks[i + 1:e]
+            eq = find_at_depth0(body, 0, ("=",))
+            pat = body[:eq] if eq >= 0 else body
+            rhs = body[eq + 1:] if eq >= 0 else None
+            colon = find_at_depth0(pat, 0, (":",))
+            pat_only = pat[:colon] if colon >= 0 else pat
+            mut = bool(pat_only) and pat_only[0] == "mut"
+            core = pat_only[1:] if mut else pat_only
+            name = core[0] if len(core) == 1 and is_ident(core[0]) else None
+            st = Stmt("let", toks[i:e + 1], name=name, mut=mut, rhs=rhs, pat=pat_only)
+            i = e + 1
+        elif t == "const" and i + 1 < n and toks[i + 1] != "{":
+            e = find_at_depth0(toks, i, (";",))
+            if e < 0:
+                raise ParseError("const without ;")
+            body = toks[i + 1:e]
+            eq = find_at_depth0(body, 0, ("=",))
+            colon = find_at_depth0(body, 0, (":",))
+            name = body[0] if body and is_ident(body[0]) else None
+            ty = body[colon + 1:eq] if 0 <= colon < eq else None
+            st = Stmt("const", toks[i:e + 1], name=name, rhs=body[eq + 1:] if eq >= 0 else None, pat=ty)
+            i = e + 1
+        elif t in ITEM_KW or (t == "unsafe" and i + 1 < n and toks[i + 1] in ("fn", "impl", "extern", "trait")) or \
+                (t == "const" and i + 1 < n and toks[i + 1] in ("fn", "unsafe")):
+            e = find_at_depth0(toks, i, (";", "{"))
+            if e < 0:
+                raise ParseError("item without end")
+            if toks[e] == "{":
+                e = match_close(toks, e)
+            st = Stmt("item", toks[i:e + 1])
+            i = e + 1
+        elif starts_blocklike(toks, i):
+            e = end_of_blocklike(toks, i)
+            if e < 0:
+                raise ParseError("unbalanced block")
+            semi = e + 1 < n and toks[e + 1] == ";"
+            if e + 1 >= n:
+                if keep:
+                    tail = toks[i:e + 1]
+                i = e + 1
+                continue
+            st = Stmt("expr", toks[i:e + 1], semi=semi)
+            i = e + 2 if semi else e + 1
+        else:
+            e = find_at_depth0(toks, i, (";",))
+            if e < 0:
+                if keep:
+                    tail = toks[i:]
+                i = n
+                continue
+            st = Stmt("expr", toks[i:e], semi=True)
+            i = e + 1
+        if keep:
+            stmts.append(st)
+    return stmts, tail
+
+
+def text_of_cfg(toks):
+    out = ""
+    for t in toks:
+        if t == "=":
+            out += " = "
+        elif t == ",":
+            out += ", "
+        else:
+            out += t
+    return out
+
+
+# ------------------------------------------------------------------ expression parser (the Rust subset the wrappers use)
+#
+# AST (tuples):
+#   ("int", value, suffix|None)   ("lit", text)          ("path", [segments])        ("unit",)
+#   ("un", op, e)                 ("bin", op, a, b)      ("cast", e, type-text)      ("assign", op, a, b)
+#   ("call", f, [args])           ("mcall", recv, name, [args])                      ("field", recv, name)
+#   ("index", recv, idx)          ("try", e)             ("tuple", [es])             ("struct", [segments], [(field, e)], base|None)
+#   ("macro", name, [arg tokens]) ("if", cond, then-tokens, else-expr|None)          ("iflet", tokens, then-tokens, else-expr|None)
+#   ("block", inner tokens)       ("loop", inner tokens) ("opaquectl", kind, tokens) ("closure", tokens)
+#   ("return", e|None)            ("break", e|None)      ("continue",)               ("range", a, b)
+#   ("array", tokens)
+
+BIN_BP = {"||": 3, "&&": 4, "==": 5, "!=": 5, "<": 5, ">": 5, "<=": 5, ">=": 5, "|": 6, "^": 7, "&": 8, "<<": 9, ">>": 9,
+          "+": 10, "-": 10, "*": 11, "/": 11, "%": 11}
+ASSIGN_OPS = {"=", "+=", "-=", "*=", "/=", "%=", "^=", "&=", "|=", "<<=", ">>="}
+EXPR_END = {")", "]", "}", ",", ";", "=>"}
+
+
+class Parser:
+    def __init__(self, toks):
+        self.t = toks
+        self.i = 0
+
+    def peek(self, k=0):
+        j = self.i + k
+        return self.t[j] if j < len(self.t) else None
+
+    def next(self):
+        if self.i >= len(self.t):
+            raise ParseError("unexpected end")
+        tok = self.t[self.i]
+        self.i += 1
+        return tok
+
+    def eat(self, tok):
+        if self.peek() == tok:
+            self.i += 1
+            return True
+        return False
+
+    def expect(self, tok):
+        if not self.eat(tok):
+            raise ParseError("expected %s, found %s" % (tok, self.peek()))
+
+    def done(self):
+        return self.i >= len(self.t)
+
+    # ---- types (only their extent and text matter)
+    def skip_angles(self):
+        """self.peek() == '<': consume through the matching '>' (handles '>>', ignores '->')"""
+        depth = 0
+        while True:
+            tok = self.next()
+            if tok == "<":
+                depth += 1
+            elif tok == "<<":
+                depth += 2
+            elif tok == ">":
+                depth -= 1
+            elif tok == ">>":
+                depth -= 2
+            elif tok in OPEN:
+                self.i -= 1
+                e = match_close(self.t, self.i)
+                if e < 0:
+                    raise ParseError("unbalanced in generics")
+                self.i = e + 1
+            if depth <= 0:
+                return
+
+    def parse_type(self):
+        s = self.i
+        tok = self.peek()
+        if tok == "*":
+            self.next()
+            if self.peek() in ("const", "mut"):
+                self.next()
+            self.parse_type()
+        elif tok in ("&", "&&"):
+            self.next()
+            if self.peek() and self.peek().startswith("'"):
+                self.next()
+            self.eat("mut")
+            self.parse_type()
+        elif tok in ("(", "["):
+            e = match_close(self.t, self.i)
+            if e < 0:
+                raise ParseError("unbalanced type")
+            self.i = e + 1
+        elif tok == "<":
+            self.skip_angles()
+            while self.eat("::"):
+                self.next()
+                if self.peek() == "<":
+                    self.skip_angles()
+        elif tok in ("fn", "unsafe", "extern", "impl", "dyn", "for"):
+            raise ParseError("unsupported type syntax")
+        elif tok is not None and (is_ident(tok) or tok == "!"):
+            self.next()
+            while True:
+                if self.peek() == "::":
+                    self.next()
+                    if self.peek() == "<":
+                        self.skip_angles()
+                    else:
+                        self.next()
+                elif self.peek() == "<":
+                    self.skip_angles()
+                else:
+                    break
+        else:
+            raise ParseError("type expected, found %s" % tok)
+        return text_of(self.t[s:self.i])
+
+    # ---- expressions
+    def parse_expr(self, min_bp=0, no_struct=False):
+        tok = self.peek()
+        if tok == "return":
+            self.next()
+            if self.done() or self.peek() in EXPR_END:
+                return ("return", None)
+            return ("return", self.parse_expr(0, no_struct))
+        if tok == "break":
+            self.next()
+            if self.peek() and self.peek().startswith("'") and len(self.peek()) > 1 and not self.peek().endswith("'"):
+                self.next()
+            if self.done() or self.peek() in EXPR_END:
+                return ("break", None)
+            return ("break", self.parse_expr(0, no_struct))
+        if tok == "continue":
+            self.next()
+            if self.peek() and self.peek().startswith("'") and len(self.peek()) > 1 and not self.peek().endswith("'"):
+                self.next()
+            return ("continue",)
+        if tok in ("|", "||", "move"):
+            s = self.i
+            self.eat("move")
+            if self.eat("||"):
+                pass
+            else:
+                self.expect("|")
+                e = find_at_depth0(self.t, self.i, ("|",))
+                if e < 0:
+                    raise ParseError("closure parameters")
+                self.i = e + 1
+            if self.eat("->"):
+                self.parse_type()
+            self.parse_expr(0, no_struct)
+            return ("closure", self.t[s:self.i])
+        if tok in ("..", "..="):
+            self.next()
+            if self.done() or self.peek() in EXPR_END:
+                return ("range", None, None)
+            return ("range", None, self.parse_expr(3, no_struct))
+        lhs = self.parse_unary(no_struct)
+        while True:
+            op = self.peek()
+            if op is None or op in EXPR_END:
+                break
+            if op == "as":
+                if 12 < min_bp:
+                    break
+                self.next()
+                lhs = ("cast", lhs, self.parse_type())
+                continue
+            if op in BIN_BP:
+                bp = BIN_BP[op]
+                if bp < min_bp:
+                    break
+                self.next()
+                rhs = self.parse_expr(bp + 1, no_struct)
+                lhs = ("bin", op, lhs, rhs)
+                continue
+            if op in ("..", "..="):
+                if 2 < min_bp:
+                    break
+                self.next()
+                if self.done() or self.peek() in EXPR_END or (no_struct and self.peek() == "{"):
+                    lhs = ("range", lhs, None)
+                else:
+                    lhs = ("range", lhs, self.parse_expr(3, no_struct))
+                continue
+            if op in ASSIGN_OPS:
+                if 1 < min_bp:
+                    break
+                self.next()
+                rhs = self.parse_expr(1, no_struct)
+                lhs = ("assign", op, lhs, rhs)
+                continue
+            break
+        return lhs
+
+    def parse_unary(self, no_struct):
+        tok = self.peek()
+        if tok in ("-", "!", "*"):
+            self.next()
+            return ("un", tok, self.parse_cast_operand(no_struct))
+        if tok in ("&", "&&"):
+            self.next()
+            if self.peek() == "raw" and self.peek(1) in ("const", "mut"):
+                self.next()
+                self.next()
+            else:
+                self.eat("mut")
+            return ("un", "&", self.parse_cast_operand(no_struct))
+        return self.parse_postfix(no_struct)
+
+    def parse_cast_operand(self, no_struct):
+        # unary operators bind tighter than `as`:  `-x as T` is `(-x) as T`
+        return self.parse_unary(no_struct)
+
+    def parse_args(self):
+        """after '(' : comma separated expressions through ')'"""
+        args = []
+        while not self.eat(")"):
+            args.append(self.parse_expr(0, False))
+            if not self.eat(","):
+                self.expect(")")
+                break
+        return args
+
+    def parse_postfix(self, no_struct):
+        e = self.parse_primary(no_struct)
+        while True:
+            tok = self.peek()
+            if tok == ".":
+                self.next()
+                name = self.next()
+                if name == "await":
+                    e = ("field", e, name)
+                    continue
+                if self.peek() == "::" and self.peek(1) == "<":
+                    self.next()
+                    self.skip_angles()
+                if self.peek() == "(" and not name[0].isdigit():
+                    self.next()
+                    e = ("mcall", e, name, self.parse_args())
+                else:
+                    e = ("field", e, name)
+            elif tok == "(":
+                self.next()
+                e = ("call", e, self.parse_args())
+            elif tok == "[":
+                self.next()
+                idx = self.parse_expr(0, False)
+                self.expect("]")
+                e = ("index", e, idx)
+            elif tok == "?":
+                self.next()
+                e = ("try", e)
+            else:
+                return e
+
+    def block_tokens(self):
+        """self.peek() == '{': return the inner tokens, position after '}'"""
+        if self.peek() != "{":
+            raise ParseError("block expected, found %s" % self.peek())
+        e = match_close(self.t, self.i)
+        if e < 0:
+            raise ParseError("unbalanced block")
+        inner = self.t[self.i + 1:e]
+        self.i = e + 1
+        return inner
+
+    def parse_if(self):
+        # 'if' already consumed
+        if self.peek() == "let":
+            ob = find_at_depth0(self.t, self.i, ("{",))
+            if ob < 0:
+                raise ParseError("if let without body")
+            cond = ("letcond", self.t[self.i:ob])
+            self.i = ob
+        else:
+            cond = self.parse_expr(0, True)
+        then = self.block_tokens()
+        els = None
+        if self.eat("else"):
+            if self.eat("if"):
+                els = self.parse_if()
+            else:
+                els = ("block", self.block_tokens())
+        if cond[0] == "letcond":
+            return ("iflet", cond[1], then, els)
+        return ("if", cond, then, els)
+
+    def parse_primary(self, no_struct):
+        tok = self.next()
+        if tok[0].isdigit():
+            iv = parse_int(tok)
+            return ("int", iv[0], iv[1]) if iv else ("lit", tok)
+        if tok[0] in "\"'" or tok in ("true", "false") or re.match(r'[bc]"', tok):
+            if tok.startswith("'") and not tok.endswith("'") and self.peek() == ":":
+                # loop label
+                self.next()
+                return self.parse_primary(no_struct)
+            return ("lit", tok)
+        if tok == "(":
+            if self.eat(")"):
+                return ("unit",)
+            first = self.parse_expr(0, False)
+            if self.eat(")"):
+                return first
+            items = [first]
+            while self.eat(","):
+                if self.peek() == ")":
+                    break
+                items.append(self.parse_expr(0, False))
+            self.expect(")")
+            return ("tuple", items)
+        if tok == "[":
+            self.i -= 1
+            e = match_close(self.t, self.i)
+            if e < 0:
+                raise ParseError("unbalanced [")
+            inner = self.t[self.i:e + 1]
+            self.i = e + 1
+            return ("array", inner)
+        if tok == "{":
+            self.i -= 1
+            return ("block", self.block_tokens())
+        if tok == "unsafe":
+            return ("block", self.block_tokens())
+        if tok == "if":
+            return self.parse_if()
+        if tok == "loop":
+            return ("loop", self.block_tokens())
+        if tok in ("while", "for", "match"):
+            s = self.i - 1
+            ob = find_at_depth0(self.t, self.i, ("{",))
+            if ob < 0:
+                raise ParseError("no body for " + tok)
+            e = match_close(self.t, ob)
+            if e < 0:
+                raise ParseError("unbalanced " + tok)
+            self.i = e + 1
+            return ("opaquectl", tok, self.t[s:self.i])
+        if tok == "<":
+            self.i -= 1
+            s = self.i
+            self.skip_angles()
+            segs = [text_of(self.t[s:self.i])]
+            while self.eat("::"):
+                if self.peek() == "<":
+                    self.skip_angles()
+                else:
+                    segs.append(self.next())
+            return ("path", segs)
+        if is_ident(tok) or tok == "::":
+            if tok == "::":
+                tok = self.next()
+            segs = [tok]
+            while self.peek() == "::":
+                self.next()
+                if self.peek() == "<":
+                    self.skip_angles()
+                else:
+                    nxt = self.next()
+                    if not is_ident(nxt):
+                        raise ParseError("path segment expected, found " + nxt)
+                    segs.append(nxt)
+            if self.peek() == "!" and self.peek(1) in ("(", "[", "{"):
+                self.next()
+                ob = self.i
+                e = match_close(self.t, ob)
+                if e < 0:
+                    raise ParseError("unbalanced macro")
+                inner = self.t[ob + 1:e]
+                self.i = e + 1
+                args, start = [], 0
+                while True:
+                    c = find_at_depth0(inner, start, (",",))
+                    if c < 0:
+                        if inner[start:]:
+                            args.append(inner[start:])
+                        break
+                    args.append(inner[start:c])
+                    start = c + 1
+                return ("macro", segs[-1], args)
+            if self.peek() == "{" and not no_struct and (segs[-1][0].isupper() or segs[-1] == "Self"):
+                inner = self.block_tokens()
+                fields, base = [], None
+                q = Parser(inner)
+                while not q.done():
+                    if q.eat(".."):
+                        base = q.parse_expr(0, False)
+                        break
+                    name = q.next()
+                    if q.eat(":"):
+                        val = q.parse_expr(0, False)
+                    else:
+                        val = ("path", [name])
+                    fields.append((name, val))
+                    if not q.eat(","):
+                        break
+                if not q.done():
+                    raise ParseError("struct literal")
+                return ("struct", segs, fields, base)
+            return ("path", segs)
+        raise ParseError("unexpected token %s" % tok)
+
+
+def parse_expr_tokens(toks):
+    p = Parser(toks)
+    e = p.parse_expr(0, False)
+    if not p.done():
+        raise ParseError("trailing tokens: " + text_of(toks[p.i:p.i + 6]))
+    return e
+
+
+# ------------------------------------------------------------------ symbolic values
+#
+#   ("reg",)                    the return register of the syscall issued on this path (usize)
+#   ("int", n, type|None)       a constant
+#   ("cast", v, t)              `v as t`, t in i8..u64 (usize = u64, isize = i64)
+#   ("neg", v)                  `-v` / `0 - v` (overflow-checked negation)
+#   ("iserr", v)                `is_syscall_error(v)`
+#   ("cmp", op, a, b)  ("and", a, b)  ("or", a, b)  ("not", v)  ("bool", b)
+#   ("ok", v) ("err", v) ("withcode", v) ("unit",) ("tuple", [..]) ("struct", name, [(f, v)]) ("ctor", name, [..])
+#   ("coerce", v)               `NonNegativeI32::coerce_from_register(v, _)` (a Result)
+#   ("coerce_ok", v) ("coerce_err", v)   its two outcomes after `?`
+#   ("bailerr", v)              the Err built by `bail_on_below_zero!(v, _)`
+#   ("callw", name)             result of calling another wrapper of the same file
+#   ("errno", n)                `Errno::NAME`
+#   ("opq", text, tainted)      anything else; tainted = built from the register
+#
+# decision trees:
+#   ("ret", v)  ("cont",)  ("fall",)  ("noret",)  ("br", cond, T, T)  ("sys", T)  ("loop", T)  ("unk", reason)
+
+UNIT = ("unit",)
+REG = ("reg",)
+
+
+def tainted(v):
+    k = v[0]
+    if k in ("reg", "coerce", "coerce_ok", "coerce_err", "bailerr", "callw"):
+        return True
+    if k == "opq":
+        return v[2]
+    if k in ("int", "bool", "unit", "errno"):
+        return False
+    if k in ("tuple", "ctor"):
+        return any(tainted(x) for x in v[-1])
+    if k == "struct":
+        return any(tainted(x) for _, x in v[2])
+    return any(tainted(x) for x in v[1:] if isinstance(x, tuple))
+
+
+def show(v):
+    k = v[0]
+    if k == "reg":
+        return "res"
+    if k == "int":
+        return str(v[1])
+    if k == "opq":
+        return v[1]
+    if k == "cast":
+        return "%s as %s" % (show(v[1]), v[2])
+    if k == "neg":
+        return "-(%s)" % show(v[1])
+    if k in ("tuple", "ctor"):
+        return "%s(%s)" % (v[1] if k == "ctor" else "", ", ".join(show(x) for x in v[-1]))
+    if k == "struct":
+        return "%s { %s }" % (v[1], ", ".join("%s: %s" % (f, show(x)) for f, x in v[2]))
+    if k == "cmp":
+        return "%s %s %s" % (show(v[2]), v[1], show(v[3]))
+    if k in ("and", "or"):
+        return "(%s) %s (%s)" % (show(v[1]), "&&" if k == "and" else "||", show(v[2]))
+    return "%s(%s)" % (k, ", ".join(show(x) if isinstance(x, tuple) else str(x) for x in v[1:]))
+
+
+def wrap_int(n, ty):
+    bits, signed = INT_TYPES[ty]
+    n %= 1 << bits
+    if signed and n >= 1 << (bits - 1):
+        n -= 1 << bits
+    return n
+
+
+class Lazy:
+    """an untainted `let` binding, evaluated only if a decision needs its value"""
+    __slots__ = ("toks", "env", "val", "busy")
+
+    def __init__(self, toks, env):
+        self.toks, self.env, self.val, self.busy = toks, env, None, False
+
+
+class St:
+    """interpreter state: variable environment, whether a syscall has been issued on this path, the enclosing retry loop"""
+    __slots__ = ("env", "has_reg", "loop_break", "in_loop")
+
+    def __init__(self, env, has_reg=False, loop_break=None, in_loop=False):
+        self.env, self.has_reg, self.loop_break, self.in_loop = env, has_reg, loop_break, in_loop
+
+    def bind(self, name, val):
+        env = dict(self.env)
+        env[name] = val
+        return St(env, self.has_reg, self.loop_break, self.in_loop)
+
+    def with_env(self, env):
+        return St(env, self.has_reg, self.loop_break, self.in_loop)
+
+    def with_reg(self):
+        return St(self.env, True, self.loop_break, self.in_loop)
+
+    def enter_loop(self, k_break):
+        return St(self.env, self.has_reg, k_break, True)
+
+
+CTRL_TOKENS = {"return", "break", "continue", "?", "loop", "while", "for", "bail_on_below_zero", "syscall", "yield", "await"}
+DIVERGING = {"unreachable_unchecked", "unreachable", "panic", "todo", "unimplemented", "abort", "exit"}
+
+
+class Interp:
+    """symbolic interpreter for one source file"""
+
+    def __init__(self, env_x, consts, callees=()):
+        self.x = env_x            # Env: type aliases + errno values
+        self.consts = consts      # name -> (type tokens, rhs tokens) of the file (and of platform/compat.rs)
+        self.callees = set(callees)
+        self.post_checks = False
+        self.const_busy = set()
+
+    # ---- token level questions
+    def has_site(self, toks):
+        for i, t in enumerate(toks):
+            if t == "syscall" and i + 1 < len(toks) and toks[i + 1] == "!":
+                return True
+            if t in self.callees and i + 1 < len(toks) and toks[i + 1] == "(" and (i == 0 or toks[i - 1] not in (".", "fn", "::")):
+                return True
+        return False
+
+    def toks_tainted(self, toks, st):
+        for i, t in enumerate(toks):
+            if i > 0 and toks[i - 1] == ".":
+                continue  # field / method name
+            b = st.env.get(t)
+            if b is not None and not isinstance(b, Lazy) and tainted(b):
+                return True
+        return False
+
+    @staticmethod
+    def toks_ctrl(toks):
+        return any(t in CTRL_TOKENS for t in toks)
+
+    # ---- blocks and statements
+    def exec_block(self, inner, st, k):
+        """run the statements of a block; k(value, state) with the block's value and the OUTER scope restored"""
+        try:
+            stmts, tail = split_block(inner)
+        except ParseError as e:
+            if not st.has_reg and not self.has_site(inner):
+                return k(("opq", "{..}", False), st)
+            return ("unk", "cannot split block: %s" % e)
+        outer = st.env
+
+        def run(i, s):
+            if i == len(stmts):
+                if tail is not None:
+                    return self.ev_toks(tail, s, lambda v, s2: k(v, s2.with_env(outer)))
+                return k(UNIT, s.with_env(outer))
+            return self.exec_stmt(stmts[i], s, lambda s2: run(i + 1, s2))
+        return run(0, st)
+
+    def exec_stmt(self, stmt, st, knext):
+        toks = stmt.toks
+        if stmt.kind == "item":
+            return knext(st)
+        if stmt.kind == "const":
+            if stmt.name and stmt.rhs is not None:
+                return knext(st.bind(stmt.name, Lazy(stmt.rhs, st.env)))
+            return knext(st)
+        site = self.has_site(toks)
+        relevant = site or (st.has_reg and (self.toks_tainted(toks, st) or self.toks_ctrl(toks)))
+        if stmt.kind == "let":
+            names = [t for t in (stmt.pat or []) if is_ident(t) and t not in ("mut", "ref", "Some", "Ok", "Err", "None")]
+            if not relevant:
+                if stmt.name and stmt.rhs is not None and not stmt.mut:
+                    return knext(st.bind(stmt.name, Lazy(stmt.rhs, st.env)))
+                s2 = st
+                for nm in names:
+                    s2 = s2.bind(nm, ("opq", nm, False))
+                return knext(s2)
+            if stmt.rhs is None:
+                return knext(st)
+            if "else" in stmt.rhs and find_at_depth0(stmt.rhs, 0, ("else",)) >= 0:
+                return ("unk", "let-else after the syscall: " + text_of(toks)[:100])
+
+            def bound(v, s2):
+                if stmt.name:
+                    if stmt.mut and tainted(v):
+                        # a mutable register-derived variable: later assignments are not tracked
+                        return knext(s2.bind(stmt.name, ("opq", "mut " + stmt.name, True)))
+                    return knext(s2.bind(stmt.name, v))
+                if len(names) == 0:
+                    return knext(s2)
+                t = tainted(v)
+                for nm in names:
+                    s2 = s2.bind(nm, ("opq", nm, t))
+                return knext(s2)
+            return self.ev_toks(stmt.rhs, st, bound)
+        # expression statement
+        if not relevant:
+            return knext(st)
+        return self.ev_toks(toks, st, lambda v, s2: knext(s2))
+
+    # ---- expressions
+    def ev_toks(self, toks, st, k):
+        try:
+            ast = parse_expr_tokens(toks)
+        except ParseError as e:
+            site = self.has_site(toks)
+            if site or (st.has_reg and (self.toks_tainted(toks, st) or self.toks_ctrl(toks))):
+                return ("unk", "cannot parse `%s`: %s" % (text_of(toks)[:100], e))
+            return k(("opq", text_of(toks)[:80], False), st)
+        return self.ev(ast, st, k)
+
+    def ev_list(self, asts, st, k):
+        def go(i, acc, s):
+            if i == len(asts):
+                return k(acc, s)
+            return self.ev(asts[i], s, lambda v, s2: go(i + 1, acc + [v], s2))
+        return go(0, [], st)
+
+    def force(self, b):
+        if not isinstance(b, Lazy):
+            return b
+        if b.val is not None:
+            return b.val
+        if b.busy:
+            return ("opq", "<cyclic>", False)
+        b.busy = True
+        try:
+            r = self.ev_toks(b.toks, St(b.env), lambda v, s: ("val", v))
+        finally:
+            b.busy = False
+        b.val = r[1] if r[0] == "val" else ("opq", text_of(b.toks)[:80], False)
+        return b.val
+
+    def const_value(self, name):
+        if name in self.const_busy:
+            return None
+        ent = self.consts.get(name)
+        if ent is None:
+            return None
+        ty, rhs = ent
+        self.const_busy.add(name)
+        try:
+            r = self.ev_toks(rhs, St({}), lambda v, s: ("val", v))
+        finally:
+            self.const_busy.discard(name)
+        if r[0] != "val":
+            return None
+        v = r[1]
+        tyname = text_of(ty) if ty else None
+        if v[0] == "int" and tyname in INT_TYPES:
+            return ("int", v[1], tyname)
+        return v
+
+    def ev_path(self, segs, st):
+        if len(segs) == 1:
+            name = segs[0]
+            if name in st.env:
+                return self.force(st.env[name])
+            if name in ("true", "false"):
+                return ("bool", name == "true")
+            c = self.const_value(name)
+            if c is not None:
+                return c
+            return ("opq", name, False)
+        if len(segs) == 2 and segs[0] in INT_TYPES and segs[1] in ("MAX", "MIN", "BITS"):
+            bits, signed = INT_TYPES[segs[0]]
+            if segs[1] == "BITS":
+                return ("int", bits, "u32")
+            if segs[1] == "MAX":
+                return ("int", (1 << (bits - 1)) - 1 if signed else (1 << bits) - 1, segs[0])
+            return ("int", -(1 << (bits - 1)) if signed else 0, segs[0])
+        if len(segs) >= 2 and segs[-2] == "Errno" and segs[-1] in self.x.errno:
+            return ("errno", self.x.errno[segs[-1]])
+        if segs[-1] in self.consts and segs[0] in ("crate", "self", "super", "Self"):
+            c = self.const_value(segs[-1])
+            if c is not None:
+                return c
+        return ("opq", "::".join(segs), False)
+
+    def int_ty(self, tyname):
+        t = tyname.strip()
+        seen = 0
+        while t in self.x.aliases and self.x.aliases[t] != t and seen < 8 and t not in INT_TYPES:
+            t = self.x.aliases[t]
+            seen += 1
+        return t if t in INT_TYPES else None
+
+    def cast(self, v, tyname):
+        t = self.int_ty(tyname)
+        if t is None:
+            return ("opq", "%s as %s" % (show(v), tyname), tainted(v))
+        if v[0] == "int":
+            return ("int", wrap_int(v[1], t), t)
+        if v[0] == "errno":
+            return ("int", wrap_int(v[1], t), t)
+        if v[0] == "bool":
+            return ("int", 1 if v[1] else 0, t)
+        ct = {"usize": "u64", "isize": "i64"}.get(t, t)
+        bits, signed = INT_TYPES[ct]
+        if v[0] == "reg":
+            return REG if ct == "u64" else ("cast", REG, ct)
+        if v[0] == "cast" and v[1] == REG:
+            ib, isg = INT_TYPES[v[2]]
+            if ib >= bits:
+                return REG if ct == "u64" else ("cast", REG, ct)     # the low `bits` bits decide
+            if isg == signed or not isg:
+                return v                                              # value preserved by the widening
+            return ("cast", v, ct)
+        if v[0] == "coerce_ok":
+            return ("cast", v, ct)
+        return ("opq", "%s as %s" % (show(v), tyname), tainted(v)) if v[0] == "opq" else ("cast", v, ct)
+
+    def neg(self, v):
+        if v[0] == "int":
+            return ("int", -v[1], v[2])
+        if v[0] == "neg":
+            return ("opq", "-" + show(v), tainted(v))
+        return ("neg", v)
+
+    def binop(self, op, a, b):
+        if a[0] == "errno":
+            a = ("int", a[1], "i32")
+        if b[0] == "errno":
+            b = ("int", b[1], "i32")
+        if op in ("==", "!=", "<", ">", "<=", ">="):
+            if a[0] == "int" and b[0] == "int":
+                return ("bool", {"==": a[1] == b[1], "!=": a[1] != b[1], "<": a[1] < b[1], ">": a[1] > b[1],
+                                 "<=": a[1] <= b[1], ">=": a[1] >= b[1]}[op])
+            return ("cmp", op, a, b)
+        if op in ("&&", "||"):
+            if a[0] == "bool":
+                return b if a[1] == (op == "&&") else a
+            if b[0] == "bool":
+                return a if b[1] == (op == "&&") else b
+            return ("and" if op == "&&" else "or", a, b)
+        if a[0] == "int" and b[0] == "int":
+            ty = a[2] or b[2]
+            try:
+                n = {"+": lambda: a[1] + b[1], "-": lambda: a[1] - b[1], "*": lambda: a[1] * b[1],
+                     "/": lambda: int(a[1] / b[1]) if b[1] else None, "%": lambda: a[1] - b[1] * int(a[1] / b[1]) if b[1] else None,
+                     "&": lambda: a[1] & b[1], "|": lambda: a[1] | b[1], "^": lambda: a[1] ^ b[1],
+                     "<<": lambda: a[1] << b[1] if 0 <= b[1] < 128 else None, ">>": lambda: a[1] >> b[1] if 0 <= b[1] < 128 else None}[op]()
+            except KeyError:
+                n = None
+            if n is not None:
+                if ty in INT_TYPES and wrap_int(n, ty) != n:
+                    return ("opq", "overflowing constant %s %s %s" % (a[1], op, b[1]), False)
+                return ("int", n, ty)
+        if op == "-" and a[0] == "int" and a[1] == 0:
+            return self.neg(b)
+        return ("opq", "%s %s %s" % (show(a), op, show(b)), tainted(a) or tainted(b))
+
+    def method(self, recv, name, args):
+        if recv[0] == "errno" and name == "raw" and not args:
+            return ("int", recv[1], "i32")
+        if recv[0] == "int" and recv[2] in INT_TYPES and all(a[0] == "int" for a in args):
+            ty = recv[2]
+            if name == "wrapping_sub" and len(args) == 1:
+                return ("int", wrap_int(recv[1] - args[0][1], ty), ty)
+            if name == "wrapping_add" and len(args) == 1:
+                return ("int", wrap_int(recv[1] + args[0][1], ty), ty)
+            if name == "wrapping_neg" and not args:
+                return ("int", wrap_int(-recv[1], ty), ty)
+            if name in ("cast_signed", "cast_unsigned") and not args:
+                bits, signed = INT_TYPES[ty]
+                other = [t for t, (b, s) in INT_TYPES.items() if b == bits and s != signed and ("size" in t) == ("size" in ty)][0]
+                return ("int", wrap_int(recv[1], other), other)
+            if name == "unsigned_abs" and not args:
+                return ("int", abs(recv[1]), None)
+        if name in ("cast_signed", "cast_unsigned") and not args and recv[0] in ("reg", "cast"):
+            cur = "u64" if recv[0] == "reg" else recv[2]
+            bits, signed = INT_TYPES[cur]
+            other = [t for t, (b, s) in INT_TYPES.items() if b == bits and s != signed and "size" not in t][0]
+            return self.cast(recv, other)
+        if name in ("into", "clone", "to_owned") and not args and recv[0] in ("coerce_ok",):
+            return recv
+        return ("opq", "%s.%s(%s)" % (show(recv), name, ", ".join(show(a) for a in args)), tainted(recv) or any(tainted(a) for a in args))
+
+    def call(self, segs, args):
+        last = segs[-1]
+        if last == "Ok" and len(args) == 1:
+            return ("ok", args[0])
+        if last == "Err" and len(args) == 1:
+            return ("err", args[0])
+        if last == "with_code" and len(args) == 2:
+            return ("withcode", args[1])
+        if last == "is_syscall_error" and len(args) == 1:
+            return ("iserr", args[0])
+        if last == "coerce_from_register" and len(args) == 2:
+            return ("coerce", args[0])
+        if len(segs) == 1 and last in self.callees:
+            return ("callw", last)
+        if last[0].isupper() or last == "Self":
+            return ("ctor", last, args)
+        return ("opq", "%s(%s)" % ("::".join(segs), ", ".join(show(a) for a in args)), any(tainted(a) for a in args))
+
+    def ev(self, e, st, k):
+        kind = e[0]
+        if kind == "int":
+            return k(("int", e[1], e[2]), st)
+        if kind == "lit":
+            if e[1] in ("true", "false"):
+                return k(("bool", e[1] == "true"), st)
+            return k(("opq", e[1] if e[1] != '""' else "_", False), st)
+        if kind == "unit":
+            return k(UNIT, st)
+        if kind == "path":
+            return k(self.ev_path(e[1], st), st)
+        if kind == "un":
+            op = e[1]
+
+            def un(v, s):
+                if op == "-":
+                    return k(self.neg(v), s)
+                if op == "!":
+                    if v[0] == "bool":
+                        return k(("bool", not v[1]), s)
+                    if v[0] == "int" and v[2] in INT_TYPES:
+                        return k(("int", wrap_int(~v[1], v[2]), v[2]), s)
+                    if v[0] in ("iserr", "cmp", "and", "or", "not"):
+                        return k(("not", v), s)
+                    return k(("opq", "!" + show(v), tainted(v)), s)
+                return k(("opq", op + show(v), tainted(v)), s)
+            return self.ev(e[2], st, un)
+        if kind == "bin":
+            return self.ev(e[2], st, lambda a, s: self.ev(e[3], s, lambda b, s2: k(self.binop(e[1], a, b), s2)))
+        if kind == "cast":
+            return self.ev(e[1], st, lambda v, s: k(self.cast(v, e[2]), s))
+        if kind == "assign":
+            def asg(v, s):
+                tgt = e[2]
+                if tgt[0] == "path" and len(tgt[1]) == 1 and tgt[1][0] in s.env:
+                    cur = s.env[tgt[1][0]]
+                    t = tainted(v) or (not isinstance(cur, Lazy) and tainted(cur))
+                    return k(UNIT, s.bind(tgt[1][0], ("opq", "assigned " + tgt[1][0], t)))
+                if tainted(v):
+                    return ("unk", "register stored through an assignment")
+                return k(UNIT, s)
+            return self.ev(e[3], st, asg)
+        if kind == "call":
+            f = e[1]
+            if f[0] == "path":
+                segs = f[1]
+                if segs[-1] in DIVERGING and segs[-1] != "exit":
+                    return ("noret",)
+
+                def called(args, s):
+                    v = self.call(segs, args)
+                    if v[0] == "callw":
+                        if s.has_reg:
+                            return ("unk", "second system call on one path")
+                        return ("sysw", v[1], k(v, s.with_reg()))
+                    return k(v, s)
+                return self.ev_list(e[2], st, called)
+            return self.ev(f, st, lambda fv, s: self.ev_list(e[2], s, lambda args, s2: k(
+                ("opq", "%s(..)" % show(fv), tainted(fv) or any(tainted(a) for a in args)), s2)))
+        if kind == "mcall":
+            return self.ev(e[1], st, lambda r, s: self.ev_list(e[3], s, lambda args, s2: k(self.method(r, e[2], args), s2)))
+        if kind == "field":
+            def fld(r, s):
+                if r[0] == "tuple" and e[2].isdigit() and int(e[2]) < len(r[1]):
+                    return k(r[1][int(e[2])], s)
+                if r[0] == "struct":
+                    for f, v in r[2]:
+                        if f == e[2]:
+                            return k(v, s)
+                return k(("opq", "%s.%s" % (show(r), e[2]), tainted(r)), s)
+            return self.ev(e[1], st, fld)
+        if kind == "index":
+            return self.ev(e[1], st, lambda r, s: self.ev(e[2], s, lambda i, s2: k(
+                ("opq", "%s[%s]" % (show(r), show(i)), tainted(r) or tainted(i)), s2)))
+        if kind == "tuple":
+            return self.ev_list(e[1], st, lambda vs, s: k(("tuple", vs), s))
+        if kind == "struct":
+            names = [f for f, _ in e[2]]
+
+            def built(vs, s):
+                if e[3] is not None:
+                    return self.ev(e[3], s, lambda b, s2: k(("struct", e[1][-1], list(zip(names, vs)) + [("..", b)]), s2))
+                return k(("struct", e[1][-1], list(zip(names, vs))), s)
+            return self.ev_list([v for _, v in e[2]], st, built)
+        if kind == "array":
+            t = self.toks_tainted(e[1], st)
+            return k(("opq", text_of(e[1])[:60], t), st)
+        if kind == "closure":
+            return k(("opq", "<closure>", self.toks_tainted(e[1], st)), st)
+        if kind == "range":
+            return k(("opq", "<range>", False), st)
+        if kind == "try":
+            def tried(v, s):
+                if v[0] == "coerce":
+                    return ("br", ("iserr", v[1]), ("ret", ("coerce_err", v[1])), k(("coerce_ok", v[1]), s))
+                if v[0] == "ok":
+                    return k(v[1], s)
+                if v[0] == "err":
+                    return ("ret", v)
+                if v[0] == "callw":
+                    return ("unk", "result of a wrapper post-processed with `?`")
+                if tainted(v):
+                    return ("unk", "`?` on a register-derived value: " + show(v)[:80])
+                if s.has_reg:
+                    self.post_checks = True
+                return k(("opq", show(v) + "?", False), s)
+            return self.ev(e[1], st, tried)
+        if kind == "macro":
+            name, args = e[1], e[2]
+            if name == "syscall":
+                if st.has_reg:
+                    return ("unk", "second system call on one path")
+                return ("sys", k(REG, st.with_reg()))
+            if name == "bail_on_below_zero" and len(args) == 2:
+                return self.ev_toks(args[0], st, lambda v, s: ("br", ("iserr", v), ("ret", ("bailerr", v)), k(UNIT, s)))
+            if name in DIVERGING:
+                return ("noret",)
+            flat = [t for a in args for t in a]
+            if self.has_site(flat):
+                return ("unk", "system call inside `%s!`" % name)
+            return k(("opq", name + "!(..)", self.toks_tainted(flat, st)), st)
+        if kind == "block":
+            return self.exec_block(e[1], st, k)
+        if kind == "if":
+            def branch(c, s):
+                if c[0] == "bool":
+                    if c[1]:
+                        return self.exec_block(e[2], s, k)
+                    return self.ev(e[3], s, k) if e[3] is not None else k(UNIT, s)
+                t1 = self.exec_block(e[2], s, k)
+                t2 = self.ev(e[3], s, k) if e[3] is not None else k(UNIT, s)
+                return ("br", c, t1, t2)
+            return self.ev(e[1], st, branch)
+        if kind == "iflet":
+            c = ("opq", "let " + text_of(e[1])[:60], self.toks_tainted(e[1], st))
+            if self.has_site(e[1]):
+                return ("unk", "system call in an `if let` scrutinee")
+            if c[2]:
+                return ("unk", "pattern match on a register-derived value")
+            t1 = self.exec_block(e[2], st, k)
+            t2 = self.ev(e[3], st, k) if e[3] is not None else k(UNIT, st)
+            return ("br", c, t1, t2)
+        if kind == "loop":
+            if not self.has_site(e[1]):
+                if st.has_reg:
+                    return ("unk", "loop after the system call")
+                return k(("opq", "loop {..}", False), st)
+            if st.has_reg or st.in_loop:
+                return ("unk", "system call in a nested / second loop")
+            body = self.exec_block(e[1], st.enter_loop(k), lambda v, s: ("cont",))
+            return ("loop", body)
+        if kind == "opaquectl":
+            if self.has_site(e[2]):
+                return ("unk", "system call inside `%s`" % e[1])
+            t = self.toks_tainted(e[2], st)
+            if st.has_reg and (t or any(x in ("return", "?", "break", "continue") for x in e[2])):
+                return ("unk", "`%s` after the system call" % e[1])
+            return k(("opq", e[1] + " {..}", t), st)
+        if kind == "return":
+            if e[1] is None:
+                return ("ret", UNIT)
+            return self.ev(e[1], st, lambda v, s: ("ret", v))
+        if kind == "break":
+            if st.loop_break is None:
+                return ("unk", "break outside the retry loop")
+            kb = st.loop_break
+            return kb(UNIT, St(st.env, st.has_reg, None, False))
+        if kind == "continue":
+            return ("cont",) if st.in_loop else ("unk", "continue outside the retry loop")
+        return ("unk", "unsupported expression " + kind)
+
+
+# ------------------------------------------------------------------ truth sets of conditions over the register
+
+FULL = [(0, M64 - 1)]
+
+
+def iv_norm(ivs):
+    out = []
+    for lo, hi in sorted(ivs):
+        if lo > hi:
+            continue
+        if out and lo <= out[-1][1] + 1:
+            out[-1] = (out[-1][0], max(out[-1][1], hi))
+        else:
+            out.append((lo, hi))
+    return out
+
+
+def iv_not(a):
+    out, cur = [], 0
+    for lo, hi in a:
+        if lo > cur:
+            out.append((cur, lo - 1))
+        cur = hi + 1
+    if cur <= M64 - 1:
+        out.append((cur, M64 - 1))
+    return out
+
+
+def iv_and(a, b):
+    return iv_norm([(max(l1, l2), min(h1, h2)) for l1, h1 in a for l2, h2 in b if max(l1, l2) <= min(h1, h2)])
+
+
+def iv_or(a, b):
+    return iv_norm(a + b)
+
+
+def truth(c, err_set):
+    """exact set of 64-bit register values for which condition `c` holds, as sorted disjoint intervals; None = not computable"""
+    k = c[0]
+    if k == "bool":
+        return list(FULL) if c[1] else []
+    if k == "iserr":
+        return err_set if c[1] == REG else None
+    if k == "not":
+        t = truth(c[1], err_set)
+        return None if t is None else iv_not(t)
+    if k in ("and", "or"):
+        a, b = truth(c[1], err_set), truth(c[2], err_set)
+        if a is None or b is None:
+            return None
+        return iv_and(a, b) if k == "and" else iv_or(a, b)
+    if k == "cmp":
+        op, a, b = c[1], c[2], c[3]
+        if a[0] == "int" and b[0] != "int":
+            a, b = b, a
+            op = {"<": ">", ">": "<", "<=": ">=", ">=": "<=", "==": "==", "!=": "!="}[op]
+        if b[0] != "int":
+            return None
+        n = b[1]
+        if a == REG:
+            lo_dom, hi_dom, signed = 0, M64 - 1, False
+        elif a == ("cast", REG, "i64"):
+            lo_dom, hi_dom, signed = -(1 << 63), (1 << 63) - 1, True
+        else:
+            return None
+        if op == "==":
+            rng = [(n, n)]
+        elif op == "!=":
+            rng = [(lo_dom, n - 1), (n + 1, hi_dom)]
+        elif op == "<":
+            rng = [(lo_dom, n - 1)]
+        elif op == "<=":
+            rng = [(lo_dom, n)]
+        elif op == ">":
+            rng = [(n + 1, hi_dom)]
+        else:
+            rng = [(n, hi_dom)]
+        rng = [(max(l, lo_dom), min(h, hi_dom)) for l, h in rng if max(l, lo_dom) <= min(h, hi_dom)]
+        if signed:
+            out = []
+            for l, h in rng:
+                if h < 0:
+                    out.append((l + M64, h + M64))
+                elif l >= 0:
+                    out.append((l, h))
+                else:
+                    out.append((l + M64, M64 - 1))
+                    out.append((0, h))
+            rng = out
+        return iv_norm(rng)
+    return None
+
+
+# ------------------------------------------------------------------ decision tree -> skeleton
+
+class Opaque(Exception):
+    pass
+
+
+def code_of(v):
+    if v == ("neg", ("cast", REG, "i32")):
+        return ".negI32"
+    if v == ("cast", REG, "i32"):
+        return ".rawI32"
+    return ".custom " + lean_str(show(v)[:100])
+
+
+class Norm:
+    def __init__(self, cfg):
+        self.cfg = cfg
+        f = cfg.get("resv")
+        self.err_set = [(M64 - f, M64 - 1)] if f else None
+
+    def classify(self, c):
+        """-> ("E", polarity) | ("Q", type, value, polarity) | ("U",)"""
+        if c[0] == "not":
+            r = self.classify(c[1])
+            if r[0] == "E":
+                return ("E", not r[1])
+            if r[0] == "Q":
+                return ("Q", r[1], r[2], not r[3])
+            return r
+        if c[0] == "iserr" and c[1] == REG:
+            return ("E", True)
+        if not tainted(c):
+            return ("U",)
+        if c[0] == "cmp" and c[1] in ("==", "!="):
+            a, b = c[2], c[3]
+            if a[0] == "int":
+                a, b = b, a
+            if b[0] == "int":
+                if a == REG:
+                    return ("Q", "u64", b[1], c[1] == "==")
+                if a[0] == "cast" and a[1] == REG and a[2] in ("i32", "u32", "i64", "u64"):
+                    return ("Q", a[2], b[1], c[1] == "==")
+        t = truth(c, self.err_set)
+        if t is not None and self.err_set is not None:
+            if t == self.err_set:
+                return ("E", True)
+            if t == iv_not(self.err_set):
+                return ("E", False)
+            if len(t) == 1 and t[0][0] == t[0][1]:
+                return ("Q", "u64", t[0][0], True)
+            nt = iv_not(t)
+            if len(nt) == 1 and nt[0][0] == nt[0][1]:
+                return ("Q", "u64", nt[0][0], False)
+        raise Opaque("condition on the register not understood: " + show(c)[:100])
+
+    def leaf(self, v):
+        k = v[0]
+        if k == "ok":
+            return ("OK", v[1])
+        if k == "err":
+            if v[1][0] == "withcode":
+                return ("ER", code_of(v[1][1]))
+            raise Opaque("error value not built by Error::with_code: " + show(v)[:80])
+        if k == "bailerr":
+            if v[1] == REG:
+                return ("BE",)
+            raise Opaque("bail_on_below_zero! applied to " + show(v[1])[:60])
+        if k == "coerce_err" and v[1] == REG:
+            return ("CE",)
+        if k == "coerce":
+            if v[1] == REG:
+                return ("E", ("CE",), ("OK", ("coerce_ok", REG)))
+            raise Opaque("coerce_from_register applied to " + show(v[1])[:60])
+        return ("RAW", v)
+
+    def canon(self, t, known=None):
+        known = known or {}
+        k = t[0]
+        if k == "br":
+            c = self.classify(t[1])
+            if c[0] == "E":
+                if "E" in known:
+                    return self.canon(t[2] if known["E"] == c[1] else t[3], known)
+                a = self.canon(t[2], dict(known, E=c[1]))
+                b = self.canon(t[3], dict(known, E=not c[1]))
+                return ("E", a, b) if c[1] else ("E", b, a)
+            if c[0] == "Q":
+                key = ("Q", c[1], c[2])
+                if key in known:
+                    return self.canon(t[2] if known[key] == c[3] else t[3], known)
+                a = self.canon(t[2], {**known, key: c[3]})
+                b = self.canon(t[3], {**known, key: not c[3]})
+                return ("Q", c[1], c[2], a, b) if c[3] else ("Q", c[1], c[2], b, a)
+            a, b = self.canon(t[2], known), self.canon(t[3], known)
+            return a if a == b else ("U", a, b)
+        if k == "ret":
+            lf = self.leaf(t[1])
+            if lf[0] == "E" and "E" in known:
+                return lf[1] if known["E"] else lf[2]
+            return lf
+        if k == "cont":
+            return ("CONT",)
+        if k == "noret":
+            return ("NORET",)
+        if k == "fall":
+            return ("FALL",)
+        if k == "unk":
+            raise Opaque(t[1])
+        if k in ("sys", "sysw", "loop"):
+            raise Opaque("second system call on one path")
+        raise Opaque("unexpected tree node " + k)
+
+    def proj(self, p, want_coerce=False):
+        """Ok payload -> Lean Proj term (or "coerce" when the payload carries the coerced fd)"""
+        if p == UNIT:
+            return ".unit"
+        if not tainted(p):
+            return ".mem"
+        if p == REG:
+            return ".id"
+        if p[0] == "cast" and p[1] == REG and p[2] in ("i32", "u32", "i64", "u64"):
+            return "(.cast .%s)" % p[2]
+        if p == ("coerce_ok", REG):
+            return "coerce"
+        comps = None
+        if p[0] in ("tuple", "ctor"):
+            comps = p[-1]
+        elif p[0] == "struct":
+            comps = [v for _, v in p[2]]
+        if comps is not None:
+            t = [c for c in comps if tainted(c)]
+            if len(t) == 1:
+                return self.proj(t[0])
+        raise Opaque("the register reaches the Ok payload through: " + show(p)[:100])
+
+    def simple(self, d):
+        if d[0] == "E":
+            x, y = d[1], d[2]
+            if y[0] == "OK":
+                p = self.proj(y[1])
+                if x == ("BE",) and p != "coerce":
+                    return "(.bail %s)" % p
+                if x[0] == "ER" and p != "coerce" and x[1] == self.cfg.get("bailCode") and not x[1].startswith(".custom"):
+                    return "(.bail %s)" % p
+                if x == ("CE",) and p == "coerce":
+                    return ".coerceFd"
+            raise Opaque("error / success branches not in a known form: %s | %s" % (d[1][0], d[2][0]))
+        if d[0] == "ER":
+            return "(.errAlways %s)" % d[1]
+        if d[0] == "U":
+            a, b = self.simple(d[1]), self.simple(d[2])
+            if a == b:
+                return a
+            raise Opaque("decode depends on something other than the register")
+        raise Opaque("the register is never tested (%s)" % d[0])
+
+    def decode(self, t, has_result, in_loop):
+        d = self.canon(t)
+        if not has_result:
+            if d[0] == "RAW":
+                v = d[1]
+                if v == REG:
+                    return "(.retRaw .id)"
+                if v[0] == "cast" and v[1] == REG and v[2] in ("i32", "u32", "i64", "u64"):
+                    return "(.retRaw (.cast .%s))" % v[2]
+                if not tainted(v):
+                    return ".ignored"
+            if d[0] == "NORET":
+                return ".noRet"
+            raise Opaque("plain return value not understood")
+        if in_loop and d[0] == "Q":
+            if d[3] == ("CONT",) and not has_cont(d[4]):
+                return "(.retryIfEq .%s (%d) %s)" % (d[1], d[2], self.simple(d[4]))
+            raise Opaque("retry loop not of the form `repeat while result == constant`")
+        if has_cont(d):
+            raise Opaque("retry on a condition that is not `result == constant`")
+        return self.simple(d)
+
+    def skeleton(self, tree, fn):
+        """-> ("skel", lean term) | ("via", callee)"""
+        if fn["ret"] == "!":
+            return ("skel", ".noRet")
+        has_result = "Result" in fn["ret"]
+        found = []
+
+        def walk(t, in_loop):
+            k = t[0]
+            if k == "br":
+                walk(t[2], in_loop)
+                walk(t[3], in_loop)
+            elif k == "sys":
+                found.append(("skel", self.decode(t[1], has_result, in_loop)))
+            elif k == "loop":
+                b = t[1]
+                if b[0] in ("sys", "sysw"):
+                    walk(b, True)
+                elif contains_sys(b):
+                    raise Opaque("decisions before the system call inside the retry loop")
+            elif k == "sysw":
+                if in_loop:
+                    raise Opaque("wrapper called in a loop")
+                if t[2] == ("ret", ("callw", t[1])):
+                    found.append(("via", t[1]))
+                else:
+                    raise Opaque("result of `%s` post-processed" % t[1])
+            elif k == "unk":
+                raise Opaque(t[1])
+        walk(tree, False)
+        uniq = []
+        for f in found:
+            if f not in uniq:
+                uniq.append(f)
+        if not uniq:
+            raise Opaque("no path reaches the system call")
+        if len(uniq) > 1:
+            raise Opaque("system call sites decode differently: " + " | ".join(u[1] for u in uniq))
+        return uniq[0]
+
+
+def has_cont(d):
+    if d == ("CONT",):
+        return True
+    return any(has_cont(x) for x in d[1:] if isinstance(x, tuple) and x and isinstance(x[0], str) and x[0] in
+               ("E", "Q", "U", "CONT"))
+
+
+def contains_sys(t):
+    if t[0] in ("sys", "sysw"):
+        return True
+    if t[0] == "br":
+        return contains_sys(t[2]) or contains_sys(t[3])
+    if t[0] == "loop":
+        return contains_sys(t[1])
+    return False
 
 
 # ------------------------------------------------------------------ items
@@ -226,6 +1761,7 @@ def find_fns(path):
             continue  # declaration without body (trait / extern)
         ret = ws(src[rp + 1:k])
         ret = ret[2:].strip() if ret.startswith("->") else ""
+        ret = re.split(r"\bwhere\b", ret)[0].strip()
         be = match_close(src, k)
         # qualifiers + attributes before `fn`
         line_start = src.rfind("\n", 0, m.start()) + 1
@@ -268,157 +1804,27 @@ def find_fns(path):
     return fns
 
 
-# ------------------------------------------------------------------ continuation of one syscall site
-
-def stmt_start(body, i):
-    """index just after the previous `;`, `{` or `}` at the same nesting level as position i"""
-    depth = 0
-    j = i - 1
-    while j >= 0:
-        ch = body[j]
-        if ch in CLOSE:
-            depth += 1
-        elif ch in OPEN:
-            if depth == 0:
-                return j + 1
-            depth -= 1
-        elif ch == ";" and depth == 0:
-            return j + 1
-        elif ch == "}" and depth == 0:
-            return j + 1
-        j -= 1
-    return 0
+def file_consts(path):
+    """every `const NAME: T = expr;` of a file (module level or inside a fn), as token lists"""
+    try:
+        src = remove_test_mods(strip_comments_and_strings(open(path).read()))
+    except OSError:
+        return {}
+    out = {}
+    for m in re.finditer(r"\bconst\s+([A-Z_][A-Z0-9_]*)\s*:\s*([^=;]+?)\s*=\s*([^;]+);", src):
+        try:
+            out[m.group(1)] = (tokenize(m.group(2)), tokenize(m.group(3)))
+        except ParseError:
+            pass
+    return out
 
 
-def enclosing_open(body, i):
-    """index of the `{` of the innermost block containing position i (or -1 = fn body)"""
-    depth = 0
-    j = i - 1
-    while j >= 0:
-        ch = body[j]
-        if ch in CLOSE:
-            depth += 1
-        elif ch in OPEN:
-            if depth == 0:
-                return j if ch == "{" else enclosing_open(body, j)
-            depth -= 1
-        j -= 1
-    return -1
+def param_name(p):
+    m = re.match(r"(?:mut\s+)?([A-Za-z_]\w*)\s*:", p)
+    return m.group(1) if m else None
 
 
-def strip_unsafe_blocks(s):
-    """`unsafe { E }` -> `E` when E has no `;` (an expression block)"""
-    while True:
-        m = re.search(r"\bunsafe\s*\{", s)
-        if not m:
-            return s
-        e = match_close(s, m.end() - 1)
-        inner = s[m.end():e]
-        if ";" in inner:
-            # keep it, but hide the keyword from the next search
-            s = s[:m.start()] + "UNSAFE_BLOCK {" + s[m.end():]
-        else:
-            s = s[:m.start()] + " " + inner.strip() + " " + s[e + 1:]
-
-
-def continuation(body, site):
-    """-> (bound variable or None, normalised continuation text, in_loop) or ("custom", reason)"""
-    end = match_close(body, body.index("(", site))
-    a, b = site, end + 1
-    # the value of `[unsafe] { syscall!(..) }` is the syscall's value
-    while True:
-        ob = enclosing_open(body, a)
-        if ob < 0:
-            break
-        cb = match_close(body, ob)
-        if body[ob + 1:a].strip() == "" and body[b:cb].strip() == "":
-            a, b = ob, cb + 1
-            m = re.search(r"\bunsafe\s*$", body[:a])
-            if m:
-                a = m.start()
-        else:
-            break
-    s0 = stmt_start(body, a)
-    head = body[s0:a].strip()
-    rest_from = b
-    nxt = body[b:].lstrip()[:1]
-    m = re.fullmatch(r"let\s+(?:mut\s+)?([A-Za-z_]\w*)\s*(?::[^=]+)?=", head)
-    if m and nxt == ";":
-        var = m.group(1)
-        rest_from = body.index(";", b) + 1
-    elif head == "" and nxt == ";":
-        var = None
-        rest_from = body.index(";", b) + 1
-    elif head == "" and nxt in ("}", ""):
-        # the syscall's value is the tail expression of its block
-        var = "res"
-        body = body[:a] + "res" + body[b:]
-        rest_from = a
-    else:
-        return ("custom", "syscall result used in: " + ws(body[s0:b])[:120])
-    segs = []
-    in_loop = False
-    pos = rest_from
-    while True:
-        ob = enclosing_open(body, pos)
-        cb = match_close(body, ob) if ob >= 0 else len(body)
-        seg = body[pos:cb].strip()
-        segs.append(seg)
-        # does this segment end the function (tail expression or `return ..;`)?
-        tail = seg
-        depth = 0
-        last_semi = -1
-        for idx, ch in enumerate(seg):
-            if ch in OPEN:
-                depth += 1
-            elif ch in CLOSE:
-                depth -= 1
-            elif ch == ";" and depth == 0:
-                last_semi = idx
-        tail = seg[last_semi + 1:].strip()
-        last_stmt = seg[:last_semi].rsplit(";", 1)[-1].strip() if last_semi >= 0 else ""
-        if ob < 0:
-            break
-        hs = stmt_start(body, ob)
-        header = body[hs:ob].strip()
-        if header == "loop":
-            in_loop = True
-            break
-        if tail:
-            # tail expression of an inner block: it is the function's value only if the block is in tail position
-            after = body[cb + 1:].strip()
-            if re.fullmatch(r"[}\s]*", after) and (header in ("unsafe", "") or header.startswith(("if ", "else"))):
-                if header.startswith(("if ", "else")):
-                    return ("custom", "branching tail: " + ws(header)[:80])
-                break
-            return ("custom", "inner block value used: " + ws(body[hs:cb + 1])[:120])
-        if re.match(r"return\b", last_stmt):
-            break
-        if header == "unsafe" or header == "" or header.startswith("if ") or header == "else" or header.startswith("else if "):
-            pos = cb + 1
-            # skip `else ..` continuations of an if-chain
-            while True:
-                mm = re.match(r"\s*else\b[^{]*\{", body[pos:])
-                if not mm:
-                    break
-                eb = match_close(body, pos + mm.end() - 1)
-                pos = eb + 1
-            # a block used as a statement may be followed by `;`
-            mm = re.match(r"\s*;", body[pos:])
-            if mm and header in ("unsafe", ""):
-                pos += mm.end()
-            continue
-        return ("custom", "unsupported enclosing construct: " + ws(header)[:80])
-    text = " ".join(s for s in segs if s)
-    if var and var != "res":
-        if re.search(r"\bres\b", text):
-            return ("custom", "variable clash: " + ws(text)[:120])
-        text = re.sub(r"\b%s\b" % re.escape(var), "res", text)
-    text = ws(strip_unsafe_blocks(text)).replace('""', "_")
-    return (var, text, in_loop)
-
-
-# ------------------------------------------------------------------ skeleton recognition
+# ------------------------------------------------------------------ shared idioms and constants
 
 class Env:
     def __init__(self):
@@ -436,191 +1842,34 @@ def resolve_ty(env, t):
     return t if t in ("i32", "u32", "i64", "u64") else None
 
 
-def proj_of(env, expr):
-    """Ok(<expr>) -> Lean Proj term or None"""
-    e = expr.strip()
-    if e == "()":
-        return ".unit"
-    occ = list(re.finditer(r"\bres\b", e))
-    if not occ:
-        return ".mem"
-    if len(occ) > 1:
-        return None
-    m = re.search(r"\bres\b(?:\s+as\s+([A-Za-z_]\w*))?", e)
-    # the register may only flow into the payload directly or through one cast (struct field / tuple member allowed)
-    before, after = e[:m.start()], e[m.end():]
-    if re.search(r"[-+*/%&|^!<>]|\bas\b", after.split(",")[0].split("}")[0].split(")")[0]):
-        return None
-    if re.search(r"[-+*/%&|^!]\s*$", before):
-        return None
-    if m.group(1):
-        t = resolve_ty(env, m.group(1))
-        return "(.cast .%s)" % t if t else None
-    return ".id"
+def rs_files(sub=""):
+    return sorted(glob.glob(os.path.join(SRC, sub, "**", "*.rs"), recursive=True))
 
 
-def const_int(env, expr):
-    """tiny constant folder: [-] [(] Errno::NAME.raw() [as T] [)]"""
-    e = expr.strip()
-    neg = False
-    if e.startswith("-"):
-        neg, e = True, e[1:].strip()
-    while e.startswith("(") and match_close(e, 0) == len(e) - 1:
-        e = e[1:-1].strip()
-    e = re.sub(r"\s+as\s+(isize|i64|i32)$", "", e)
-    m = re.fullmatch(r"Errno::([A-Z0-9_]+)\.raw\(\)", e)
-    if m and m.group(1) in env.errno:
-        v = env.errno[m.group(1)]
-        return -v if neg else v
-    m = re.fullmatch(r"-?\d+", e)
-    if m:
-        return -int(e) if neg else int(e)
+def tree_truth(t, err_set=None):
+    """truth set of a bool-valued function body given as a decision tree"""
+    if t[0] == "ret":
+        return truth(t[1], err_set)
+    if t[0] == "br":
+        c, a, b = truth(t[1], err_set), tree_truth(t[2], err_set), tree_truth(t[3], err_set)
+        if c is None or a is None or b is None:
+            return None
+        return iv_or(iv_and(c, a), iv_and(iv_not(c), b))
     return None
 
-
-def code_of(expr):
-    e = ws(expr)
-    if e in ("0 - res as i32", "0 - (res as i32)", "-(res as i32)"):
-        return ".negI32"
-    if e == "res as i32":
-        return ".rawI32"
-    return ".custom " + lean_str(e)
-
-
-COERCE = r"(?:Fd|NonNegativeI32|crate::platform::Fd|crate::platform::NonNegativeI32)::coerce_from_register\(res, _\)"
-
-
-def accessor_of(expr):
-    """how the harness reaches the register-derived part of an `Ok(<expr>)` payload whose type it cannot name"""
-    e = expr.strip()
-    if not re.search(r"\bres\b", e):
-        return ".map(|_| Mem)" if e != "()" else ""
-    m = re.match(r"^[A-Za-z_][\w:]*\s*\{(.*)\}$", e, re.S)
-    if m:
-        for part in split_params(m.group(1)):
-            fm = re.match(r"(\w+)\s*:\s*(.*)$", part, re.S)
-            if fm and re.search(r"\bres\b", fm.group(2)):
-                return ".map(|x| x.%s)" % fm.group(1)
-            if re.fullmatch(r"res", part.strip()):
-                return ".map(|x| x.res)"
-    if e.startswith("(") and match_close(e, 0) == len(e) - 1:
-        for i, part in enumerate(split_params(e[1:-1])):
-            if re.search(r"\bres\b", part):
-                return ".map(|x| x.%d)" % i
-    return ""
-
-
-def simple_skel(env, text):
-    """loop-free continuation -> (Lean Skel term, harness accessor) or None"""
-    t = text
-    m = re.fullmatch(r"bail_on_below_zero!\(res, _\); (?:return )?Ok\((.*)\);?", t)
-    if m:
-        p = proj_of(env, m.group(1))
-        return ("(.bail %s)" % p, accessor_of(m.group(1))) if p else None
-    if re.fullmatch(COERCE, t):
-        return (".coerceFd", "")
-    if re.fullmatch(r"Ok\(\w+\(%s\?\)\)" % COERCE, t):
-        return (".coerceFd", "")
-    m = re.fullmatch(r"let (\w+) = %s\?; Ok\((.*)\)" % COERCE, t)
-    if m and not re.search(r"\bres\b", m.group(2)) and re.match(r"\(\s*%s\s*," % m.group(1), m.group(2)):
-        return (".coerceFd", ".map(|x| x.0)")
-    m = re.fullmatch(r"Err\((?:crate::)?Error::with_code\(_, (.*)\)\)", t)
-    if m:
-        return ("(.errAlways %s)" % code_of(m.group(1)), "")
-    return None
-
-
-def skel_of(env, fn, var, text, in_loop):
-    """-> (Lean Skel term, harness accessor)"""
-    has_result = "Result" in fn["ret"]
-    if fn["ret"] == "!":
-        return (".noRet", "")
-    if in_loop:
-        m = re.fullmatch(r"if res(?: as (\w+))? == ([^{]+) \{ continue; \} (.*)", text)
-        if m:
-            t = resolve_ty(env, m.group(1)) if m.group(1) else "u64"
-            v = const_int(env, m.group(2))
-            k = simple_skel(env, m.group(3))
-            if t and v is not None and k:
-                return ("(.retryIfEq .%s (%d) %s)" % (t, v, k[0]), k[1])
-        return (".custom " + lean_str("loop { " + text + " }"), "")
-    if var is None:
-        if not has_result and not re.search(r"\bres\b", text):
-            return (".ignored", "")
-        return (".custom " + lean_str("discarded; " + text), "")
-    if not has_result:
-        m = re.fullmatch(r"res(?: as (\w+))?", text)
-        if m:
-            if not m.group(1):
-                return ("(.retRaw .id)", "")
-            t = resolve_ty(env, m.group(1))
-            if t:
-                return ("(.retRaw (.cast .%s))" % t, "")
-        return (".custom " + lean_str(text), "")
-    k = simple_skel(env, text)
-    return k if k else (".custom " + lean_str(text), "")
-
-
-# ------------------------------------------------------------------ shared idioms and constants
 
 def extract_cfg(env):
-    """`Cfg` fields from platform/compat.rs, macros.rs, non_negative_i32.rs (+ Errno::EBUSY)"""
-    cfg = {"resv": None, "strict": None, "bailCode": None, "coerceCode": None, "coerceOk": None, "ebusy": None}
-    problems = []
-    compat = strip_comments_and_strings(open(os.path.join(SRC, "platform", "compat.rs")).read())
-    for m in re.finditer(r"pub type (\w+) = (\w+);", compat):
-        env.aliases[m.group(1)] = m.group(2)
-    consts = {m.group(1): ws(m.group(2)) for m in re.finditer(r"const (\w+): usize = ([^;]+);", compat)}
-    m = re.search(r"pub const fn is_syscall_error\((\w+): usize\) -> bool \{([^}]*)\}", compat)
-    if m:
-        body = ws(m.group(2))
-        mm = re.fullmatch(r"%s (>=|>) (\w+)" % m.group(1), body)
-        if mm and mm.group(2) in consts:
-            th = consts[mm.group(2)]
-            m3 = re.fullmatch(r"usize::MAX - (\w+)", th)
-            if m3:
-                lit = consts.get(m3.group(1), m3.group(1)).replace("_", "")
-                if re.fullmatch(r"\d+", lit):
-                    cfg["resv"] = int(lit)
-                    cfg["strict"] = mm.group(1) == ">"
-    if cfg["resv"] is None:
-        problems.append("is_syscall_error: shape not recognised")
-    macros = strip_comments_and_strings(open(os.path.join(SRC, "macros.rs")).read())
-    m = re.search(r"macro_rules! bail_on_below_zero \{(.*?)\n\}", macros, re.S)
-    if m:
-        body = ws(m.group(1))
-        mm = re.fullmatch(r"\(\$res: expr, \$out_line: expr\) => \{ if \$crate::platform::is_syscall_error\(\$res\) \{ "
-                          r"return Err\(\$crate::Error::with_code\(\$out_line, (.*)\)\); \} \};", body)
-        if mm:
-            cfg["bailCode"] = code_of(mm.group(1).replace("$res", "res"))
-    if cfg["bailCode"] is None:
-        cfg["bailCode"] = ".custom " + lean_str("bail_on_below_zero!: shape not recognised")
-        problems.append("bail_on_below_zero!: shape not recognised")
-    nn = strip_comments_and_strings(open(os.path.join(SRC, "platform", "numbers", "non_negative_i32.rs")).read())
-    m = re.search(r"const fn coerce_from_register\(\s*(\w+): usize,\s*(\w+): &'static str,?\s*\) -> Result<Self, Error> \{", nn)
-    if m:
-        ob = m.end() - 1
-        body = ws(nn[ob + 1:match_close(nn, ob)])
-        v, msg = m.group(1), m.group(2)
-        body = re.sub(r"\b%s\b" % v, "res", body)
-        mm = re.fullmatch(r"if is_syscall_error\(res\) \{ let (\w+) = (res as i32); Err\(Error::with_code\(%s, (.*)\)\) \} "
-                          r"else \{ Ok\(Self\(res as (\w+)\)\) \}" % msg, body)
-        if mm:
-            code = re.sub(r"\b%s\b" % mm.group(1), mm.group(2), mm.group(3))
-            cfg["coerceCode"] = code_of(code)
-            cfg["coerceOk"] = resolve_ty(env, mm.group(4))
-        else:
-            mm = re.fullmatch(r"if is_syscall_error\(res\) \{ Err\(Error::with_code\(%s, (.*)\)\) \} else \{ Ok\(Self\(res as (\w+)\)\) \}" % msg, body)
-            if mm:
-                cfg["coerceCode"] = code_of(mm.group(1))
-                cfg["coerceOk"] = resolve_ty(env, mm.group(2))
-    if cfg["coerceCode"] is None or cfg["coerceOk"] is None:
-        cfg["coerceCode"] = ".custom " + lean_str("coerce_from_register: shape not recognised")
-        cfg["coerceOk"] = cfg["coerceOk"] or "i32"
-        problems.append("coerce_from_register: shape not recognised")
+    """`Cfg` fields, by interpreting `is_syscall_error`, `bail_on_below_zero!`, `coerce_from_register` (+ Errno::EBUSY).
+    -> (cfg, problems, unknown) ; unknown = the Cfg fields the static analysis could not determine"""
+    cfg = {"resv": None, "strict": True, "bailCode": None, "coerceCode": None, "coerceOk": None, "ebusy": None}
+    problems, unknown = [], []
+    for path in rs_files("platform"):
+        for m in re.finditer(r"pub type (\w+) = (\w+);", strip_comments_and_strings(open(path).read())):
+            env.aliases.setdefault(m.group(1), m.group(2))
     # Errno values: rusl's Errno::NAME = linux_rust_bindings::errno::NAME (pinned registry crate)
-    errno_rs = strip_comments_and_strings(open(os.path.join(SRC, "error", "errno.rs")).read())
-    if "pub const $name: Self = Self(linux_rust_bindings::errno::$name);" in ws(errno_rs):
+    errno_path = os.path.join(SRC, "error", "errno.rs")
+    errno_rs = strip_comments_and_strings(open(errno_path).read()) if os.path.exists(errno_path) else ""
+    if "linux_rust_bindings::errno::$name" in ws(errno_rs):
         cands = sorted(glob.glob(os.path.expanduser("~/.cargo/registry/src/*/linux-rust-bindings-*/src/errno/errno_x86.rs")))
         lock = open(os.path.join(REPO, "Cargo.lock")).read() if os.path.exists(os.path.join(REPO, "Cargo.lock")) else ""
         mver = re.search(r'name = "linux-rust-bindings"\nversion = "([^"]+)"', lock)
@@ -634,17 +1883,112 @@ def extract_cfg(env):
     else:
         problems.append("Errno::EBUSY: value not found")
         cfg["ebusy"] = 0
-    return cfg, problems
+
+    # --- is_syscall_error: the exact set of registers it accepts must be a top-of-range window
+    why = "is_syscall_error: definition not found"
+    for path in rs_files():
+        if "fn is_syscall_error" not in open(path).read():
+            continue
+        for fn in find_fns(path):
+            if fn["name"] != "is_syscall_error" or not fn["params"]:
+                continue
+            pn = param_name(fn["params"][0])
+            try:
+                it = Interp(env, file_consts(path))
+                tree = it.exec_block(tokenize(fn["body"]), St({pn: REG}, has_reg=True), lambda v, s: ("ret", v))
+                t = tree_truth(tree)
+            except (ParseError, RecursionError) as e:
+                t, why = None, "is_syscall_error: cannot parse (%s)" % e
+            if t is None:
+                why = "is_syscall_error: body is not a comparison of the register against constants"
+            elif len(t) == 1 and t[0][1] == M64 - 1 and t[0][0] > (1 << 63):
+                cfg["resv"] = M64 - t[0][0]
+                why = None
+            else:
+                # understood, and not a top-of-range window: state it exactly (fails cfgOk)
+                why = "is_syscall_error: accepts %s, not a window ending at usize::MAX" % (
+                    ", ".join("[%d, %d]" % iv for iv in t[:4]) or "nothing")
+                cfg["resv"] = 0
+                problems.append(why)
+                why = None
+    if why:
+        unknown.append("resv")
+        problems.append(why)
+
+    # --- bail_on_below_zero!
+    nm = Norm({"resv": cfg["resv"] or 4095})
+    why = "bail_on_below_zero!: definition not found"
+    for path in rs_files():
+        src = strip_comments_and_strings(open(path).read())
+        m = re.search(r"macro_rules!\s*bail_on_below_zero\s*\{", src)
+        if not m:
+            continue
+        try:
+            toks = tokenize(src[m.end():match_close(src, m.end() - 1)])
+            arrow = find_at_depth0(toks, 0, ("=>",))
+            pat = toks[1:match_close(toks, 0)]
+            body_open = arrow + 1
+            body = toks[body_open + 1:match_close(toks, body_open)]
+            metas = [t for t in pat if t.startswith("$")]
+            if len(metas) != 2:
+                raise ParseError("expected two macro parameters")
+            it = Interp(env, file_consts(path))
+            tree = it.exec_block(body, St({metas[0]: REG, metas[1]: ("opq", "_", False)}, has_reg=True), lambda v, s: ("fall",))
+            d = nm.canon(tree)
+            if d[0] == "E" and d[1][0] == "ER" and d[2] == ("FALL",):
+                cfg["bailCode"] = d[1][1]
+                why = None
+            else:
+                why = "bail_on_below_zero!: not of the form `if is_syscall_error(res) { return Err(with_code(..)) }`"
+        except (ParseError, Opaque, RecursionError, ValueError, IndexError) as e:
+            why = "bail_on_below_zero!: %s" % e
+    if why:
+        unknown.append("bailCode")
+        problems.append(why)
+        cfg["bailCode"] = ".custom " + lean_str(why)
+
+    # --- NonNegativeI32::coerce_from_register
+    why = "coerce_from_register: definition not found"
+    for path in rs_files("platform"):
+        if "fn coerce_from_register" not in open(path).read():
+            continue
+        for fn in find_fns(path):
+            if fn["name"] != "coerce_from_register" or len(fn["params"]) != 2:
+                continue
+            pn, pm = param_name(fn["params"][0]), param_name(fn["params"][1])
+            try:
+                it = Interp(env, file_consts(path))
+                tree = it.exec_block(tokenize(fn["body"]), St({pn: REG, pm: ("opq", "_", False)}, has_reg=True), lambda v, s: ("ret", v))
+                d = nm.canon(tree)
+                ok = d[2][1] if d[0] == "E" and d[2][0] == "OK" else None
+                if d[0] == "E" and d[1][0] == "ER" and ok is not None and ok[0] == "ctor" and len(ok[2]) == 1 \
+                        and ok[2][0][0] == "cast" and ok[2][0][1] == REG and ok[2][0][2] in ("i32", "u32", "i64", "u64"):
+                    cfg["coerceCode"], cfg["coerceOk"] = d[1][1], ok[2][0][2]
+                    why = None
+                else:
+                    why = "coerce_from_register: not of the form `if is_syscall_error(v) { Err(with_code(..)) } else { Ok(Self(v as T)) }`"
+            except (ParseError, Opaque, RecursionError, ValueError, IndexError) as e:
+                why = "coerce_from_register: %s" % e
+    if why:
+        unknown += ["coerceCode", "coerceOk"]
+        problems.append(why)
+        cfg["coerceCode"] = ".custom " + lean_str(why)
+        cfg["coerceOk"] = "i32"
+    return cfg, problems, unknown
 
 
 # ------------------------------------------------------------------ driver
 
+def ret_payload_type(ret):
+    m = re.fullmatch(r"(?:crate::|crate::error::)?Result<(.*?)(?:, Error)?>", ret)
+    return m.group(1).strip() if m else None
+
+
 def ret_category(env, ret):
     """payload category of the declared return type (used by the harness-independent spec oracle)"""
-    m = re.fullmatch(r"(?:crate::|crate::error::)?Result<(.*?)(?:, Error)?>", ret)
-    if not m:
+    t = ret_payload_type(ret)
+    if t is None:
         return "noresult" if ret != "!" else "noreturn"
-    t = m.group(1).strip()
     if t == "()":
         return "unit"
     if t in ("Fd", "NonNegativeI32", "OpenFlags", "WaitPidResult") or re.match(r"\(Fd,", t):
@@ -653,13 +1997,51 @@ def ret_category(env, ret):
     return r if r else "mem"
 
 
-def extract():
+def accessor_of_ret(env, ret):
+    """how the harness reaches the register-derived part of the payload: from the declared return type only"""
+    t = ret_payload_type(ret)
+    if t is None:
+        return ""
+    if re.match(r"\(Fd,", t):
+        return ".map(|x| x.0)"
+    if t == "WaitPidResult":
+        return ".map(|x| x.pid)"
+    if ret_category(env, ret) == "mem":
+        return ".map(|_| Mem)"
+    return ""
+
+
+def analyse_fn(env, nm, fn, consts, callees):
+    """-> (("skel", term) | ("via", callee) | ("opaque", reason), post_checks)"""
+    it = Interp(env, consts, callees)
+    try:
+        toks = tokenize(fn["body"])
+        st = St({})
+        for p in fn["params"]:
+            n = param_name(p)
+            if n:
+                st = st.bind(n, ("opq", n, False))
+        tree = it.exec_block(toks, st, lambda v, s: ("ret", v))
+        return nm.skeleton(tree, fn), it.post_checks
+    except Opaque as e:
+        return ("opaque", str(e)), it.post_checks
+    except ParseError as e:
+        return ("opaque", "cannot parse: %s" % e), it.post_checks
+    except RecursionError:
+        return ("opaque", "body too deeply nested for the interpreter"), it.post_checks
+
+
+def extract(write=True):
     env = Env()
-    cfg, problems = extract_cfg(env)
+    cfg, problems, unknown = extract_cfg(env)
+    nm = Norm(cfg)
+    compat_consts = {}
+    for path in rs_files("platform"):
+        if os.path.basename(path) == "compat.rs":
+            compat_consts.update(file_consts(path))
     wrappers = []
     skipped = []
-    files = sorted(glob.glob(os.path.join(SRC, "**", "*.rs"), recursive=True))
-    for path in files:
+    for path in rs_files():
         rel = os.path.relpath(path, SRC)
         if os.path.basename(path) in ("test.rs", "tests.rs") or "/test/" in rel or rel.startswith("platform/"):
             continue
@@ -667,60 +2049,82 @@ def extract():
         if "syscall!(" not in text:
             continue
         fns = find_fns(path)
+        consts = dict(compat_consts)
+        consts.update(file_consts(path))
         top = rel.split("/")[0].replace(".rs", "")
         local = {}
+        pending = []
         for fn in fns:
-            if "syscall!(" not in fn["body"]:
-                continue
             gated = [a for a in fn["attrs"] if re.match(r"#\[cfg\(", a)]
             if any(not cfg_holds(re.match(r"#\[cfg\((.*)\)\]$", a).group(1)) for a in gated):
-                skipped.append({"name": top + "::" + fn["name"], "file": rel, "why": "cfg'd out of the x86_64 build: " + " ".join(gated)})
+                if "syscall!(" in fn["body"]:
+                    skipped.append({"name": top + "::" + fn["name"], "file": rel, "why": "cfg'd out of the x86_64 build: " + " ".join(gated)})
                 continue
-            body = drop_attrs_and_cfg(fn["body"])
-            sites = [m.start() for m in re.finditer(r"\bsyscall!\(", body)]
-            skels = []
-            for s in sites:
-                c = continuation(body, s)
-                if c[0] == "custom":
-                    skels.append((".custom " + lean_str(c[1]), ""))
-                else:
-                    skels.append(skel_of(env, fn, c[0], c[1], c[2]))
+            pending.append(fn)
+
+        def add(fn, via_ok):
             if fn["nested"]:
-                skels = [(".custom " + lean_str("syscall! inside an impl/trait/nested item"), "")]
-            if len(set(skels)) == 1:
-                skel, acc = skels[0]
+                res, pc = ("opaque", "syscall! inside an impl/trait/nested item"), False
             else:
-                skel, acc = ".custom " + lean_str("syscall sites decode differently: " + " | ".join(k for k, _ in skels)), ""
+                res, pc = analyse_fn(env, nm, fn, consts, [n for n in local if n != fn["name"]] if via_ok else [])
+            w = {"name": top + "::" + fn["name"], "fn": fn["name"], "top": top, "file": rel, "line": fn["line"],
+                 "sites": len(re.findall(r"\bsyscall!\(", fn["body"])), "pub": fn["pub"], "unsafe": fn["unsafe"],
+                 "params": fn["params"], "ret": fn["ret"], "cat": ret_category(env, fn["ret"]), "via": None, "opaque": None,
+                 "acc": accessor_of_ret(env, fn["ret"]), "post_checks": pc}
+            if res[0] == "via":
+                callee = local[res[1]]
+                w["via"] = callee["fn"]
+                if callee["opaque"]:
+                    res = ("opaque", "delegates to `%s`, which is opaque" % callee["fn"])
+                elif callee["ret"].replace("crate::", "").replace("error::", "") != fn["ret"].replace("crate::", "").replace("error::", ""):
+                    res = ("opaque", "delegates to `%s` with another return type" % callee["fn"])
+                else:
+                    res = ("skel", callee["skel"])
+                    w["post_checks"] = callee["post_checks"]
+            elif via_ok:
+                # calls a wrapper of this file but is not a plain delegation: a row (opaque) only when it returns what the
+                # callee returns (a thin variant of the wrapper); anything else is a user of the wrapper, not a wrapper
+                m = [n for n in local if re.search(r"(?<![\w.:])%s\s*\(" % re.escape(n), fn["body"])]
+                same = [n for n in m if local[n]["ret"].replace("crate::", "").replace("error::", "") == fn["ret"].replace("crate::", "").replace("error::", "")]
+                if not same:
+                    return False
+                w["via"] = same[0]
+                if res[0] != "opaque":
+                    res = ("opaque", "calls `%s` and post-processes" % same[0])
             if fn["ret"] == "!":
-                skel = ".noRet"
-            w = {"name": top + "::" + fn["name"], "fn": fn["name"], "top": top, "file": rel, "line": fn["line"], "skel": skel,
-                 "acc": acc, "sites": len(sites), "pub": fn["pub"], "unsafe": fn["unsafe"], "params": fn["params"], "ret": fn["ret"],
-                 "cat": ret_category(env, fn["ret"]), "via": None,
-                 "post_checks": bool(re.search(r"Ok\(.*\?", " ".join(continuation(body, s)[1] for s in sites if continuation(body, s)[0] != "custom")))
-                 and "coerce_from_register" not in body}
+                res = ("skel", ".noRet")
+            if res[0] == "opaque":
+                w["opaque"] = res[1]
+                w["skel"] = ".custom " + lean_str("opaque: " + res[1])
+            else:
+                w["skel"] = res[1]
             local[fn["name"]] = w
             wrappers.append(w)
-        # delegates: fns of the same file whose whole body is one call of a wrapper (transitively)
+            return True
+
+        for fn in pending:
+            if "syscall!(" in fn["body"]:
+                add(fn, False)
+        # fns of the same file that call a wrapper (transitively): delegates
         changed = True
+        rejected = set()
         while changed:
             changed = False
-            for fn in fns:
+            for fn in pending:
                 if fn["name"] in local or fn["nested"]:
                     continue
-                b = ws(drop_attrs_and_cfg(fn["body"]))
-                m = re.fullmatch(r"(?:unsafe \{ )?([a-z_]\w*)\((.*)\)(?: \})?", b)
-                if m and m.group(1) in local and local[m.group(1)]["ret"].replace("crate::", "") == fn["ret"].replace("crate::", ""):
-                    callee = local[m.group(1)]
-                    w = dict(callee)
-                    w.update({"name": top + "::" + fn["name"], "fn": fn["name"], "line": fn["line"], "pub": fn["pub"], "unsafe": fn["unsafe"],
-                              "params": fn["params"], "ret": fn["ret"], "via": callee["fn"], "cat": ret_category(env, fn["ret"])})
-                    local[fn["name"]] = w
-                    wrappers.append(w)
-                    changed = True
+                if fn["name"] in rejected:
+                    continue
+                if any(re.search(r"(?<![\w.:])%s\s*\(" % re.escape(n), fn["body"]) for n in local):
+                    if add(fn, True):
+                        changed = True
+                    else:
+                        rejected.add(fn["name"])
     wrappers.sort(key=lambda w: w["name"])
-    meta = {"cfg": cfg, "problems": problems, "wrappers": wrappers, "skipped": skipped}
-    write_lean(meta)
-    write_rs(meta)
+    meta = {"cfg": cfg, "problems": problems, "unknown": unknown, "observed": [], "wrappers": wrappers, "skipped": skipped}
+    if write:
+        write_lean(meta)
+        write_rs(meta)
     return meta
 
 
@@ -741,8 +2145,15 @@ def write_lean(meta):
     o.append("def cfg : Cfg := { resv := %d, strict := %s, bailCode := %s, coerceCode := %s, coerceOk := .%s, ebusy := %d }"
              % (c["resv"] if c["resv"] is not None else 0, "true" if c["strict"] else "false", c["bailCode"], c["coerceCode"], c["coerceOk"], c["ebusy"]))
     o.append("")
-    o.append("/-- constructs of the shared idioms the extractor could not translate (must be empty) -/")
+    o.append("/-- constructs of the shared idioms that are neither translated nor confirmed at run time (must be empty) -/")
     o.append("def problems : List String := [%s]" % ", ".join(lean_str(p) for p in meta["problems"]))
+    o.append("")
+    o.append("/-- Cfg fields the static translation could not determine; their values above are what the compiled code was")
+    o.append("observed to do under the scripted kernel (every errno, the window boundary, the success classes) -/")
+    o.append("def observed : List String := [%s]" % ", ".join(lean_str(p) for p in meta.get("observed", [])))
+    o.append("")
+    o.append("/-- wrappers whose body the translator does not understand: decided by the exhaustive run-time correspondence only -/")
+    o.append("def opaqueRows : List String := [%s]" % ", ".join(lean_str(w["name"]) for w in meta["wrappers"] if w["opaque"]))
     o.append("")
     o.append("def wrappers : List Wrapper := [")
     rows = ["  { name := %s, file := %s, skel := %s }" % (lean_str(w["name"]), lean_str(w["file"]), w["skel"]) for w in meta["wrappers"]]
@@ -754,12 +2165,13 @@ def write_lean(meta):
 
 
 def callable_wrappers(meta):
-    return [w for w in meta["wrappers"] if w["pub"] and w["ret"] != "!" and not w["skel"].startswith(".noRet")]
+    return [w for w in meta["wrappers"] if w["pub"] and w["ret"] != "!"]
 
 
 def write_rs(meta):
     o = ["// GENERATED by checks/c09_extract.py from %s/rusl/src.  Do not edit." % REPO,
-         "// One stub per exported wrapper: dummy arguments come from `Dummy` impls selected by the parameter types.",
+         "// One stub per exported wrapper, from its signature only: dummy arguments come from `Dummy` impls selected by the",
+         "// parameter types, the payload accessor from the declared return type.",
          "pub const WRAPPERS: &[(&str, fn() -> String)] = &["]
     for w in callable_wrappers(meta):
         args = ", ".join("d()" for _ in w["params"])
@@ -769,11 +2181,11 @@ def write_rs(meta):
 
 
 if __name__ == "__main__":
-    m = extract()
+    m = extract(write="--dry" not in sys.argv)
     if "--json" in sys.argv:
         json.dump(m, sys.stdout, indent=1)
     else:
-        print("cfg", m["cfg"], "problems", m["problems"])
+        print("cfg", m["cfg"], "problems", m["problems"], "unknown", m["unknown"])
         for w in m["wrappers"]:
             print("%-34s %-5s %-8s %s%s" % (w["name"], "pub" if w["pub"] else "priv", w["cat"], w["skel"], (" via " + w["via"]) if w["via"] else ""))
         for s in m["skipped"]:
